@@ -20,7 +20,9 @@ CONSTANTS Threads, Prog, TSO, Tracing, SBMax,
           SysMb,          \* memb only: sys_membarrier available (readers have no fences)
           QSAttempts,     \* RCU_QS_ACTIVE_ATTEMPTS of the build (driver: -DURCU_VERIF_RCU_QS_ACTIVE_ATTEMPTS)
           WaitAttempts,   \* URCU_WAIT_ATTEMPTS of the build
-          FaultBudget     \* number of spurious / EINTR returns of FUTEX_WAIT per execution
+          FaultBudget,    \* number of spurious / EINTR returns of FUTEX_WAIT per execution
+          SigThreads,     \* threads that can be interrupted by the signal handler (C19); {} otherwise
+          SigBudget       \* number of signal deliveries per execution
 
 PHASE == 65536
 NULL == "NULL"
@@ -36,6 +38,9 @@ Locs == {"gp_ctr", "gp_futex", "gptr", "waiters"} \cup {Rctr(t) : t \in Threads}
 FlId(t) == "F:" \o t
 Flushers == {FlId(t) : t \in Threads}
 FlOf == [f \in Flushers |-> CHOOSE t \in Threads : FlId(t) = f]
+SigId(t) == "S:" \o t
+SigIds == {SigId(t) : t \in SigThreads}
+SigOf == [h \in SigIds |-> CHOOSE t \in SigThreads : SigId(t) = h]
 ReaderFence == Flavor = "mb" \/ ~SysMb            \* smp_mb_slave() is a real fence
 Nest(v) == v % PHASE
 Ph(v) == v \div PHASE
@@ -52,7 +57,10 @@ variables
   registry = {}, cursnap = {}, qsr = {},       \* reader lists (plain data under registry_lock)
   sleeping = [t \in Threads |-> "none"],       \* FUTEX_WAIT: location slept on
   woken = [t \in Threads |-> FALSE],
-  faults = 0,
+  faults = 0, sigs = 0,
+  myctr = [t \in Threads |-> 0],               \* each thread's reader word as the thread itself sees it (its TLS)
+  insig = [t \in Threads |-> FALSE],           \* the thread is executing the signal handler
+  hcs = [t \in Threads |-> 0],                 \* ghost: critical section opened by the handler when it interrupted code outside any section
   alive = [o \in Objs |-> TRUE],
   cs = [t \in Threads |-> 0],                  \* ghost: id of the open outermost critical section (0: none)
   pre = [t \in Threads |-> {}];                \* ghost: sections open when t called synchronize_rcu()
@@ -63,7 +71,7 @@ define {
   Rd(t, loc) == IF LastIdx(t, loc) = 0 THEN mem[loc] ELSE sb[t][LastIdx(t, loc)][2]
   Drained(t) == sb[t] = <<>>
   Ev(t, op, var, a, b, r) == IF Tracing THEN [k |-> acc.k + 1, t |-> t, op |-> op, var |-> var, a |-> a, b |-> b, r |-> r] ELSE acc
-  OpenCS == {<<t, cs[t]>> : t \in {x \in Threads : cs[x] # 0}}
+  OpenCS == {<<t, cs[t]>> : t \in {x \in Threads : cs[x] # 0}} \cup {<<t, hcs[t]>> : t \in {x \in Threads : hcs[x] # 0}}
 }
 
 macro Ld(dst, loc)        { dst := Rd(self, loc); acc := Ev(self, "ld", loc, "-", "-", Rd(self, loc)); }
@@ -75,6 +83,12 @@ macro Mb()                { await Drained(self); acc := Ev(self, "mb", "-", "-",
 macro Lock(m)             { await Drained(self) /\ lock[m] = "free"; lock[m] := self; acc := Ev(self, "lock", m, "-", "-", "-"); }
 macro Unlock(m)           { await Drained(self); lock[m] := "free"; acc := Ev(self, "unlock", m, "-", "-", "-"); }
 
+\* the same accesses issued by the signal handler, on behalf of (and through the store buffer of) the interrupted thread T
+macro HLd(T, dst, loc)    { dst := Rd(T, loc); acc := Ev(T, "ld", loc, "-", "-", Rd(T, loc)); }
+macro HSt(T, loc, v)      { if (TSO) { sb[T] := Append(sb[T], <<loc, v>>) } else { mem[loc] := v }; acc := Ev(T, "st", loc, v, "-", "-"); }
+macro HStSC(T, loc, v)    { await Drained(T); mem[loc] := v; acc := Ev(T, "st", loc, v, "-", "-"); }
+macro HMb(T)              { await Drained(T); acc := Ev(T, "mb", "-", "-", "-", "-"); }
+
 fair process (flusher \in Flushers) {
 fl: while (TRUE) {
       await sb[FlOf[self]] # <<>>;
@@ -84,9 +98,57 @@ fl: while (TRUE) {
     }
 }
 
+\* C19: a signal handler doing rcu_read_lock(); p = rcu_dereference(gptr); rcu_read_unlock() that interrupts thread T at ANY
+\* point (between any two of its steps); T does not run while the handler is active (SpecSig below).
+process (sig \in SigIds)
+variables T = SigOf[self], htmp = 0, hg = 0, hf = 0, hheld = NULL, entry = 0;
+{
+h_idle: while (TRUE) {
+          await sigs < SigBudget /\ ~insig[T] /\ T \in registry \cup cursnap \cup qsr /\ pc[T] \notin {"Done", "t_end", "x_lock", "x_del", "x_unl"}
+                /\ sleeping[T] = "none"
+                /\ Drained(T);                                   \* signal delivery enters and leaves the kernel: a full barrier for T
+          sigs := sigs + 1; insig[T] := TRUE; entry := myctr[T];
+          acc := Ev(T, "sig_enter", "-", "-", "-", "-");
+        \* rcu_read_lock()
+h_ltop:   htmp := myctr[T];
+          if (Nest(myctr[T]) # 0) { goto h_lnest };
+h_lld:    HLd(T, hg, "gp_ctr");
+h_lst:    HSt(T, Rctr(T), hg); myctr[T] := hg;
+h_lmb:    if (ReaderFence) { HMb(T) };
+h_lin:    if (cs[T] = 0) { hcs[T] := 1000 + sigs };
+          goto h_deref;
+h_lnest:  HSt(T, Rctr(T), htmp + 1); myctr[T] := htmp + 1;
+h_deref:  HLd(T, hheld, "gptr");
+h_use:    assert hheld = NULL \/ alive[hheld];
+        \* rcu_read_unlock()
+h_utop:   htmp := myctr[T];
+          if (Nest(myctr[T]) # 1) { goto h_unest };
+h_uout:   hcs[T] := 0; hheld := NULL;
+h_umb1:   if (Flavor = "memb" /\ ReaderFence) { HMb(T) };
+h_ust:    if (Flavor = "mb") { HStSC(T, Rctr(T), htmp - 1) } else { HSt(T, Rctr(T), htmp - 1) };
+          myctr[T] := htmp - 1;
+h_umb2:   if (Flavor = "memb" /\ ReaderFence) { HMb(T) };
+h_uldf:   HLd(T, hf, "gp_futex");
+          if (hf # -1) { goto h_ret };
+h_ustf:   HSt(T, "gp_futex", 0);
+h_uwake:  await Drained(T);
+          with (w \in IF {t \in Threads : sleeping[t] = "gp_futex" /\ ~woken[t]} = {} THEN {"none"}
+                      ELSE {t \in Threads : sleeping[t] = "gp_futex" /\ ~woken[t]}) {
+            if (w # "none") { woken[w] := TRUE };
+            acc := Ev(T, "fwake", "gp_futex", "-", "-", IF w = "none" THEN 0 ELSE 1);
+          };
+          goto h_ret;
+h_unest:  HSt(T, Rctr(T), htmp - 1); myctr[T] := htmp - 1; hheld := NULL;
+h_ret:    assert Nest(myctr[T]) = Nest(entry) /\ (Nest(entry) # 0 => myctr[T] = entry);   \* C19: nesting (and, inside a section, its phase) exactly as found
+          await Drained(T);                                      \* sigreturn: full barrier
+          insig[T] := FALSE;
+          acc := Ev(T, "sig_exit", "-", "-", "-", "-");
+        }
+}
+
 fair process (thr \in Threads)
 variables i = 1, op = [op |-> "none"], res = "-",
-          myctr = 0,            \* the thread's own reader word as it knows it (plain read of its TLS)
+          tmp = 0,              \* tmp = URCU_TLS(rcu_reader).ctr (plain read of the thread's own word)
           g = 0, f = 0, held = NULL, old = NULL,
           oldh = NULL, popped = NULL, it = NULL, nx = NULL, st = 0, wi = 0,
           wl = 0, ph = 0, scan = {}, v = 0, ipi = {}, ret = "", mret = "";
@@ -114,22 +176,24 @@ x_unl:    Unlock("registry_lock");
           goto t_ret;
 
         \* ---------------- _rcu_read_lock  (tmp = own ctr is a plain read of the thread's TLS)
-rl_top:   if (Nest(myctr) # 0) { goto rl_nest };
+rl_top:   tmp := myctr[self];                                    \* tmp = URCU_TLS(rcu_reader).ctr
+          if (Nest(myctr[self]) # 0) { goto rl_nest };
 rl_ld:    Ld(g, "gp_ctr");                                       \* gctr = uatomic_load(&rcu_gp.ctr)
-rl_st:    St(Rctr(self), g); myctr := g;                         \* uatomic_store(ctr, gctr)
+rl_st:    St(Rctr(self), g); myctr[self] := g;                   \* uatomic_store(ctr, gctr)
 rl_mb:    if (ReaderFence) { Mb() };                             \* smp_mb_slave() / cmm_smp_mb()
 rl_in:    cs[self] := i;                                         \* rcu_read_lock() returned: the section has begun
           goto t_ret;
-rl_nest:  St(Rctr(self), myctr + 1); myctr := myctr + 1;         \* uatomic_store(ctr, tmp + URCU_GP_COUNT)
+rl_nest:  St(Rctr(self), tmp + 1); myctr[self] := tmp + 1;       \* uatomic_store(ctr, tmp + URCU_GP_COUNT)
           goto t_ret;
 
         \* ---------------- _rcu_read_unlock
 ru_top:   assert held = NULL \/ alive[held];
-          if (Nest(myctr) # 1) { goto ru_nest };
+          tmp := myctr[self];                                    \* tmp = URCU_TLS(rcu_reader).ctr
+          if (Nest(myctr[self]) # 1) { goto ru_nest };
 ru_out:   cs[self] := 0; held := NULL;                           \* outermost unlock entered: the section has ended
 ru_mb1:   if (Flavor = "memb" /\ ReaderFence) { Mb() };          \* memb: smp_mb_slave()
-ru_st:    if (Flavor = "mb") { StSC(Rctr(self), myctr - 1) } else { St(Rctr(self), myctr - 1) };
-          myctr := myctr - 1;
+ru_st:    if (Flavor = "mb") { StSC(Rctr(self), tmp - 1) } else { St(Rctr(self), tmp - 1) };
+          myctr[self] := tmp - 1;
 ru_mb2:   if (Flavor = "memb" /\ ReaderFence) { Mb() };
 ru_ldf:   Ld(f, "gp_futex");                                     \* urcu_common_wake_up_gp: load futex
           if (f # -1) { goto t_ret };
@@ -141,7 +205,7 @@ ru_wake:  await Drained(self);                                   \* futex_async(
             acc := Ev(self, "fwake", "gp_futex", "-", "-", IF w = "none" THEN 0 ELSE 1);
           };
           goto t_ret;
-ru_nest:  St(Rctr(self), myctr - 1); myctr := myctr - 1;
+ru_nest:  St(Rctr(self), tmp - 1); myctr[self] := tmp - 1;
           goto t_ret;
 
         \* ---------------- rcu_dereference(gptr), rcu_xchg_pointer(&gptr, obj)
@@ -157,7 +221,8 @@ s_push:   Xchg(oldh, "waiters", Wn(self));                       \* old_head = u
 s_link:   St(WnNext(Wn(self)), oldh);                            \* uatomic_store(&node->next, &old_head->node, RELEASE)
           if (oldh # END) { wi := 0; goto a_ld1 };               \* not first in queue: wait for the leader
         \* leader
-s_run:    skip;                                                  \* urcu_wait_set_state(&wait, RUNNING): plain store to own node
+s_run:    if (Tracing \/ ~TSO) { await Drained(self); mem[WnState(Wn(self))] := RUNNING }     \* urcu_wait_set_state(&wait, RUNNING): PLAIN store
+          else { sb[self] := Append(sb[self], <<WnState(Wn(self)), RUNNING>>) };            \* (executed code commits plain stores at once)
 s_gplk:   Lock("gp_lock");
 s_pop:    Xchg(popped, "waiters", END);                          \* __cds_wfs_pop_all: uatomic_xchg(&s->head, CDS_WFS_END)
 s_popmb:  Mb();                                                  \* cmm_emit_legacy_smp_mb()
@@ -214,7 +279,7 @@ a_or:     await Drained(self);                                   \* uatomic_or(&
           acc := Ev(self, "or", WnState(Wn(self)), RUNNING, "-", OrBit(mem[WnState(Wn(self))], RUNNING));
           wi := 0;
 a_ld3:    Ld(st, WnState(Wn(self)));                             \* for (i < URCU_WAIT_ATTEMPTS) if (state & TEARDOWN) break
-          if (HasBit(st, TEARDOWN)) { goto a_ld5 } else { wi := wi + 1; if (wi < WaitAttempts) { goto a_ld3 } else { goto a_ld4 } };
+          if (HasBit(st, TEARDOWN)) { goto a_ld4 } else { wi := wi + 1; if (wi < WaitAttempts) { goto a_ld3 } else { goto a_ld4 } };
 a_ld4:    Ld(st, WnState(Wn(self)));                             \* while (!(state & TEARDOWN)) poll()
           if (~HasBit(st, TEARDOWN)) { goto a_ld4 };
 a_ld5:    Ld(st, WnState(Wn(self)));                             \* assert(state & TEARDOWN)
@@ -286,7 +351,7 @@ t_end:  skip;
 } *)
 \* BEGIN TRANSLATION
 VARIABLES pc, mem, sb, lock, acc, registry, cursnap, qsr, sleeping, woken, 
-          faults, alive, cs, pre
+          faults, sigs, myctr, insig, hcs, alive, cs, pre
 
 (* define statement *)
 LastIdx(t, loc) == LET S == {i \in DOMAIN sb[t] : sb[t][i][1] = loc} IN
@@ -294,16 +359,17 @@ LastIdx(t, loc) == LET S == {i \in DOMAIN sb[t] : sb[t][i][1] = loc} IN
 Rd(t, loc) == IF LastIdx(t, loc) = 0 THEN mem[loc] ELSE sb[t][LastIdx(t, loc)][2]
 Drained(t) == sb[t] = <<>>
 Ev(t, op, var, a, b, r) == IF Tracing THEN [k |-> acc.k + 1, t |-> t, op |-> op, var |-> var, a |-> a, b |-> b, r |-> r] ELSE acc
-OpenCS == {<<t, cs[t]>> : t \in {x \in Threads : cs[x] # 0}}
+OpenCS == {<<t, cs[t]>> : t \in {x \in Threads : cs[x] # 0}} \cup {<<t, hcs[t]>> : t \in {x \in Threads : hcs[x] # 0}}
 
-VARIABLES i, op, res, myctr, g, f, held, old, oldh, popped, it, nx, st, wi, 
-          wl, ph, scan, v, ipi, ret, mret
+VARIABLES T, htmp, hg, hf, hheld, entry, i, op, res, tmp, g, f, held, old, 
+          oldh, popped, it, nx, st, wi, wl, ph, scan, v, ipi, ret, mret
 
 vars == << pc, mem, sb, lock, acc, registry, cursnap, qsr, sleeping, woken, 
-           faults, alive, cs, pre, i, op, res, myctr, g, f, held, old, oldh, 
-           popped, it, nx, st, wi, wl, ph, scan, v, ipi, ret, mret >>
+           faults, sigs, myctr, insig, hcs, alive, cs, pre, T, htmp, hg, hf, 
+           hheld, entry, i, op, res, tmp, g, f, held, old, oldh, popped, it, 
+           nx, st, wi, wl, ph, scan, v, ipi, ret, mret >>
 
-ProcSet == (Flushers) \cup (Threads)
+ProcSet == (Flushers) \cup (SigIds) \cup (Threads)
 
 Init == (* Global variables *)
         /\ mem = [l \in Locs |-> CASE l = "gp_ctr" -> 1 [] l = "gp_futex" -> 0 [] l = "gptr" -> "obj0" [] l = "waiters" -> END
@@ -317,14 +383,25 @@ Init == (* Global variables *)
         /\ sleeping = [t \in Threads |-> "none"]
         /\ woken = [t \in Threads |-> FALSE]
         /\ faults = 0
+        /\ sigs = 0
+        /\ myctr = [t \in Threads |-> 0]
+        /\ insig = [t \in Threads |-> FALSE]
+        /\ hcs = [t \in Threads |-> 0]
         /\ alive = [o \in Objs |-> TRUE]
         /\ cs = [t \in Threads |-> 0]
         /\ pre = [t \in Threads |-> {}]
+        (* Process sig *)
+        /\ T = [self \in SigIds |-> SigOf[self]]
+        /\ htmp = [self \in SigIds |-> 0]
+        /\ hg = [self \in SigIds |-> 0]
+        /\ hf = [self \in SigIds |-> 0]
+        /\ hheld = [self \in SigIds |-> NULL]
+        /\ entry = [self \in SigIds |-> 0]
         (* Process thr *)
         /\ i = [self \in Threads |-> 1]
         /\ op = [self \in Threads |-> [op |-> "none"]]
         /\ res = [self \in Threads |-> "-"]
-        /\ myctr = [self \in Threads |-> 0]
+        /\ tmp = [self \in Threads |-> 0]
         /\ g = [self \in Threads |-> 0]
         /\ f = [self \in Threads |-> 0]
         /\ held = [self \in Threads |-> NULL]
@@ -343,6 +420,7 @@ Init == (* Global variables *)
         /\ ret = [self \in Threads |-> ""]
         /\ mret = [self \in Threads |-> ""]
         /\ pc = [self \in ProcSet |-> CASE self \in Flushers -> "fl"
+                                        [] self \in SigIds -> "h_idle"
                                         [] self \in Threads -> "t_top"]
 
 fl(self) == /\ pc[self] = "fl"
@@ -353,11 +431,276 @@ fl(self) == /\ pc[self] = "fl"
                /\ sb' = [sb EXCEPT ![FlOf[self]] = Tail(sb[FlOf[self]])]
             /\ pc' = [pc EXCEPT ![self] = "fl"]
             /\ UNCHANGED << lock, registry, cursnap, qsr, sleeping, woken, 
-                            faults, alive, cs, pre, i, op, res, myctr, g, f, 
+                            faults, sigs, myctr, insig, hcs, alive, cs, pre, T, 
+                            htmp, hg, hf, hheld, entry, i, op, res, tmp, g, f, 
                             held, old, oldh, popped, it, nx, st, wi, wl, ph, 
                             scan, v, ipi, ret, mret >>
 
 flusher(self) == fl(self)
+
+h_idle(self) == /\ pc[self] = "h_idle"
+                /\ sigs < SigBudget /\ ~insig[T[self]] /\ T[self] \in registry \cup cursnap \cup qsr /\ pc[T[self]] \notin {"Done", "t_end", "x_lock", "x_del", "x_unl"}
+                   /\ sleeping[T[self]] = "none"
+                   /\ Drained(T[self])
+                /\ sigs' = sigs + 1
+                /\ insig' = [insig EXCEPT ![T[self]] = TRUE]
+                /\ entry' = [entry EXCEPT ![self] = myctr[T[self]]]
+                /\ acc' = Ev(T[self], "sig_enter", "-", "-", "-", "-")
+                /\ pc' = [pc EXCEPT ![self] = "h_ltop"]
+                /\ UNCHANGED << mem, sb, lock, registry, cursnap, qsr, 
+                                sleeping, woken, faults, myctr, hcs, alive, cs, 
+                                pre, T, htmp, hg, hf, hheld, i, op, res, tmp, 
+                                g, f, held, old, oldh, popped, it, nx, st, wi, 
+                                wl, ph, scan, v, ipi, ret, mret >>
+
+h_ltop(self) == /\ pc[self] = "h_ltop"
+                /\ htmp' = [htmp EXCEPT ![self] = myctr[T[self]]]
+                /\ IF Nest(myctr[T[self]]) # 0
+                      THEN /\ pc' = [pc EXCEPT ![self] = "h_lnest"]
+                      ELSE /\ pc' = [pc EXCEPT ![self] = "h_lld"]
+                /\ UNCHANGED << mem, sb, lock, acc, registry, cursnap, qsr, 
+                                sleeping, woken, faults, sigs, myctr, insig, 
+                                hcs, alive, cs, pre, T, hg, hf, hheld, entry, 
+                                i, op, res, tmp, g, f, held, old, oldh, popped, 
+                                it, nx, st, wi, wl, ph, scan, v, ipi, ret, 
+                                mret >>
+
+h_lld(self) == /\ pc[self] = "h_lld"
+               /\ hg' = [hg EXCEPT ![self] = Rd(T[self], "gp_ctr")]
+               /\ acc' = Ev(T[self], "ld", "gp_ctr", "-", "-", Rd(T[self], "gp_ctr"))
+               /\ pc' = [pc EXCEPT ![self] = "h_lst"]
+               /\ UNCHANGED << mem, sb, lock, registry, cursnap, qsr, sleeping, 
+                               woken, faults, sigs, myctr, insig, hcs, alive, 
+                               cs, pre, T, htmp, hf, hheld, entry, i, op, res, 
+                               tmp, g, f, held, old, oldh, popped, it, nx, st, 
+                               wi, wl, ph, scan, v, ipi, ret, mret >>
+
+h_lst(self) == /\ pc[self] = "h_lst"
+               /\ IF TSO
+                     THEN /\ sb' = [sb EXCEPT ![T[self]] = Append(sb[T[self]], <<(Rctr(T[self])), hg[self]>>)]
+                          /\ mem' = mem
+                     ELSE /\ mem' = [mem EXCEPT ![(Rctr(T[self]))] = hg[self]]
+                          /\ sb' = sb
+               /\ acc' = Ev(T[self], "st", (Rctr(T[self])), hg[self], "-", "-")
+               /\ myctr' = [myctr EXCEPT ![T[self]] = hg[self]]
+               /\ pc' = [pc EXCEPT ![self] = "h_lmb"]
+               /\ UNCHANGED << lock, registry, cursnap, qsr, sleeping, woken, 
+                               faults, sigs, insig, hcs, alive, cs, pre, T, 
+                               htmp, hg, hf, hheld, entry, i, op, res, tmp, g, 
+                               f, held, old, oldh, popped, it, nx, st, wi, wl, 
+                               ph, scan, v, ipi, ret, mret >>
+
+h_lmb(self) == /\ pc[self] = "h_lmb"
+               /\ IF ReaderFence
+                     THEN /\ Drained(T[self])
+                          /\ acc' = Ev(T[self], "mb", "-", "-", "-", "-")
+                     ELSE /\ TRUE
+                          /\ acc' = acc
+               /\ pc' = [pc EXCEPT ![self] = "h_lin"]
+               /\ UNCHANGED << mem, sb, lock, registry, cursnap, qsr, sleeping, 
+                               woken, faults, sigs, myctr, insig, hcs, alive, 
+                               cs, pre, T, htmp, hg, hf, hheld, entry, i, op, 
+                               res, tmp, g, f, held, old, oldh, popped, it, nx, 
+                               st, wi, wl, ph, scan, v, ipi, ret, mret >>
+
+h_lin(self) == /\ pc[self] = "h_lin"
+               /\ IF cs[T[self]] = 0
+                     THEN /\ hcs' = [hcs EXCEPT ![T[self]] = 1000 + sigs]
+                     ELSE /\ TRUE
+                          /\ hcs' = hcs
+               /\ pc' = [pc EXCEPT ![self] = "h_deref"]
+               /\ UNCHANGED << mem, sb, lock, acc, registry, cursnap, qsr, 
+                               sleeping, woken, faults, sigs, myctr, insig, 
+                               alive, cs, pre, T, htmp, hg, hf, hheld, entry, 
+                               i, op, res, tmp, g, f, held, old, oldh, popped, 
+                               it, nx, st, wi, wl, ph, scan, v, ipi, ret, mret >>
+
+h_lnest(self) == /\ pc[self] = "h_lnest"
+                 /\ IF TSO
+                       THEN /\ sb' = [sb EXCEPT ![T[self]] = Append(sb[T[self]], <<(Rctr(T[self])), (htmp[self] + 1)>>)]
+                            /\ mem' = mem
+                       ELSE /\ mem' = [mem EXCEPT ![(Rctr(T[self]))] = htmp[self] + 1]
+                            /\ sb' = sb
+                 /\ acc' = Ev(T[self], "st", (Rctr(T[self])), (htmp[self] + 1), "-", "-")
+                 /\ myctr' = [myctr EXCEPT ![T[self]] = htmp[self] + 1]
+                 /\ pc' = [pc EXCEPT ![self] = "h_deref"]
+                 /\ UNCHANGED << lock, registry, cursnap, qsr, sleeping, woken, 
+                                 faults, sigs, insig, hcs, alive, cs, pre, T, 
+                                 htmp, hg, hf, hheld, entry, i, op, res, tmp, 
+                                 g, f, held, old, oldh, popped, it, nx, st, wi, 
+                                 wl, ph, scan, v, ipi, ret, mret >>
+
+h_deref(self) == /\ pc[self] = "h_deref"
+                 /\ hheld' = [hheld EXCEPT ![self] = Rd(T[self], "gptr")]
+                 /\ acc' = Ev(T[self], "ld", "gptr", "-", "-", Rd(T[self], "gptr"))
+                 /\ pc' = [pc EXCEPT ![self] = "h_use"]
+                 /\ UNCHANGED << mem, sb, lock, registry, cursnap, qsr, 
+                                 sleeping, woken, faults, sigs, myctr, insig, 
+                                 hcs, alive, cs, pre, T, htmp, hg, hf, entry, 
+                                 i, op, res, tmp, g, f, held, old, oldh, 
+                                 popped, it, nx, st, wi, wl, ph, scan, v, ipi, 
+                                 ret, mret >>
+
+h_use(self) == /\ pc[self] = "h_use"
+               /\ Assert(hheld[self] = NULL \/ alive[hheld[self]], 
+                         "Failure of assertion at line 122, column 11.")
+               /\ pc' = [pc EXCEPT ![self] = "h_utop"]
+               /\ UNCHANGED << mem, sb, lock, acc, registry, cursnap, qsr, 
+                               sleeping, woken, faults, sigs, myctr, insig, 
+                               hcs, alive, cs, pre, T, htmp, hg, hf, hheld, 
+                               entry, i, op, res, tmp, g, f, held, old, oldh, 
+                               popped, it, nx, st, wi, wl, ph, scan, v, ipi, 
+                               ret, mret >>
+
+h_utop(self) == /\ pc[self] = "h_utop"
+                /\ htmp' = [htmp EXCEPT ![self] = myctr[T[self]]]
+                /\ IF Nest(myctr[T[self]]) # 1
+                      THEN /\ pc' = [pc EXCEPT ![self] = "h_unest"]
+                      ELSE /\ pc' = [pc EXCEPT ![self] = "h_uout"]
+                /\ UNCHANGED << mem, sb, lock, acc, registry, cursnap, qsr, 
+                                sleeping, woken, faults, sigs, myctr, insig, 
+                                hcs, alive, cs, pre, T, hg, hf, hheld, entry, 
+                                i, op, res, tmp, g, f, held, old, oldh, popped, 
+                                it, nx, st, wi, wl, ph, scan, v, ipi, ret, 
+                                mret >>
+
+h_uout(self) == /\ pc[self] = "h_uout"
+                /\ hcs' = [hcs EXCEPT ![T[self]] = 0]
+                /\ hheld' = [hheld EXCEPT ![self] = NULL]
+                /\ pc' = [pc EXCEPT ![self] = "h_umb1"]
+                /\ UNCHANGED << mem, sb, lock, acc, registry, cursnap, qsr, 
+                                sleeping, woken, faults, sigs, myctr, insig, 
+                                alive, cs, pre, T, htmp, hg, hf, entry, i, op, 
+                                res, tmp, g, f, held, old, oldh, popped, it, 
+                                nx, st, wi, wl, ph, scan, v, ipi, ret, mret >>
+
+h_umb1(self) == /\ pc[self] = "h_umb1"
+                /\ IF Flavor = "memb" /\ ReaderFence
+                      THEN /\ Drained(T[self])
+                           /\ acc' = Ev(T[self], "mb", "-", "-", "-", "-")
+                      ELSE /\ TRUE
+                           /\ acc' = acc
+                /\ pc' = [pc EXCEPT ![self] = "h_ust"]
+                /\ UNCHANGED << mem, sb, lock, registry, cursnap, qsr, 
+                                sleeping, woken, faults, sigs, myctr, insig, 
+                                hcs, alive, cs, pre, T, htmp, hg, hf, hheld, 
+                                entry, i, op, res, tmp, g, f, held, old, oldh, 
+                                popped, it, nx, st, wi, wl, ph, scan, v, ipi, 
+                                ret, mret >>
+
+h_ust(self) == /\ pc[self] = "h_ust"
+               /\ IF Flavor = "mb"
+                     THEN /\ Drained(T[self])
+                          /\ mem' = [mem EXCEPT ![(Rctr(T[self]))] = htmp[self] - 1]
+                          /\ acc' = Ev(T[self], "st", (Rctr(T[self])), (htmp[self] - 1), "-", "-")
+                          /\ sb' = sb
+                     ELSE /\ IF TSO
+                                THEN /\ sb' = [sb EXCEPT ![T[self]] = Append(sb[T[self]], <<(Rctr(T[self])), (htmp[self] - 1)>>)]
+                                     /\ mem' = mem
+                                ELSE /\ mem' = [mem EXCEPT ![(Rctr(T[self]))] = htmp[self] - 1]
+                                     /\ sb' = sb
+                          /\ acc' = Ev(T[self], "st", (Rctr(T[self])), (htmp[self] - 1), "-", "-")
+               /\ myctr' = [myctr EXCEPT ![T[self]] = htmp[self] - 1]
+               /\ pc' = [pc EXCEPT ![self] = "h_umb2"]
+               /\ UNCHANGED << lock, registry, cursnap, qsr, sleeping, woken, 
+                               faults, sigs, insig, hcs, alive, cs, pre, T, 
+                               htmp, hg, hf, hheld, entry, i, op, res, tmp, g, 
+                               f, held, old, oldh, popped, it, nx, st, wi, wl, 
+                               ph, scan, v, ipi, ret, mret >>
+
+h_umb2(self) == /\ pc[self] = "h_umb2"
+                /\ IF Flavor = "memb" /\ ReaderFence
+                      THEN /\ Drained(T[self])
+                           /\ acc' = Ev(T[self], "mb", "-", "-", "-", "-")
+                      ELSE /\ TRUE
+                           /\ acc' = acc
+                /\ pc' = [pc EXCEPT ![self] = "h_uldf"]
+                /\ UNCHANGED << mem, sb, lock, registry, cursnap, qsr, 
+                                sleeping, woken, faults, sigs, myctr, insig, 
+                                hcs, alive, cs, pre, T, htmp, hg, hf, hheld, 
+                                entry, i, op, res, tmp, g, f, held, old, oldh, 
+                                popped, it, nx, st, wi, wl, ph, scan, v, ipi, 
+                                ret, mret >>
+
+h_uldf(self) == /\ pc[self] = "h_uldf"
+                /\ hf' = [hf EXCEPT ![self] = Rd(T[self], "gp_futex")]
+                /\ acc' = Ev(T[self], "ld", "gp_futex", "-", "-", Rd(T[self], "gp_futex"))
+                /\ IF hf'[self] # -1
+                      THEN /\ pc' = [pc EXCEPT ![self] = "h_ret"]
+                      ELSE /\ pc' = [pc EXCEPT ![self] = "h_ustf"]
+                /\ UNCHANGED << mem, sb, lock, registry, cursnap, qsr, 
+                                sleeping, woken, faults, sigs, myctr, insig, 
+                                hcs, alive, cs, pre, T, htmp, hg, hheld, entry, 
+                                i, op, res, tmp, g, f, held, old, oldh, popped, 
+                                it, nx, st, wi, wl, ph, scan, v, ipi, ret, 
+                                mret >>
+
+h_ustf(self) == /\ pc[self] = "h_ustf"
+                /\ IF TSO
+                      THEN /\ sb' = [sb EXCEPT ![T[self]] = Append(sb[T[self]], <<"gp_futex", 0>>)]
+                           /\ mem' = mem
+                      ELSE /\ mem' = [mem EXCEPT !["gp_futex"] = 0]
+                           /\ sb' = sb
+                /\ acc' = Ev(T[self], "st", "gp_futex", 0, "-", "-")
+                /\ pc' = [pc EXCEPT ![self] = "h_uwake"]
+                /\ UNCHANGED << lock, registry, cursnap, qsr, sleeping, woken, 
+                                faults, sigs, myctr, insig, hcs, alive, cs, 
+                                pre, T, htmp, hg, hf, hheld, entry, i, op, res, 
+                                tmp, g, f, held, old, oldh, popped, it, nx, st, 
+                                wi, wl, ph, scan, v, ipi, ret, mret >>
+
+h_uwake(self) == /\ pc[self] = "h_uwake"
+                 /\ Drained(T[self])
+                 /\ \E w \in IF {t \in Threads : sleeping[t] = "gp_futex" /\ ~woken[t]} = {} THEN {"none"}
+                             ELSE {t \in Threads : sleeping[t] = "gp_futex" /\ ~woken[t]}:
+                      /\ IF w # "none"
+                            THEN /\ woken' = [woken EXCEPT ![w] = TRUE]
+                            ELSE /\ TRUE
+                                 /\ woken' = woken
+                      /\ acc' = Ev(T[self], "fwake", "gp_futex", "-", "-", IF w = "none" THEN 0 ELSE 1)
+                 /\ pc' = [pc EXCEPT ![self] = "h_ret"]
+                 /\ UNCHANGED << mem, sb, lock, registry, cursnap, qsr, 
+                                 sleeping, faults, sigs, myctr, insig, hcs, 
+                                 alive, cs, pre, T, htmp, hg, hf, hheld, entry, 
+                                 i, op, res, tmp, g, f, held, old, oldh, 
+                                 popped, it, nx, st, wi, wl, ph, scan, v, ipi, 
+                                 ret, mret >>
+
+h_unest(self) == /\ pc[self] = "h_unest"
+                 /\ IF TSO
+                       THEN /\ sb' = [sb EXCEPT ![T[self]] = Append(sb[T[self]], <<(Rctr(T[self])), (htmp[self] - 1)>>)]
+                            /\ mem' = mem
+                       ELSE /\ mem' = [mem EXCEPT ![(Rctr(T[self]))] = htmp[self] - 1]
+                            /\ sb' = sb
+                 /\ acc' = Ev(T[self], "st", (Rctr(T[self])), (htmp[self] - 1), "-", "-")
+                 /\ myctr' = [myctr EXCEPT ![T[self]] = htmp[self] - 1]
+                 /\ hheld' = [hheld EXCEPT ![self] = NULL]
+                 /\ pc' = [pc EXCEPT ![self] = "h_ret"]
+                 /\ UNCHANGED << lock, registry, cursnap, qsr, sleeping, woken, 
+                                 faults, sigs, insig, hcs, alive, cs, pre, T, 
+                                 htmp, hg, hf, entry, i, op, res, tmp, g, f, 
+                                 held, old, oldh, popped, it, nx, st, wi, wl, 
+                                 ph, scan, v, ipi, ret, mret >>
+
+h_ret(self) == /\ pc[self] = "h_ret"
+               /\ Assert(Nest(myctr[T[self]]) = Nest(entry[self]) /\ (Nest(entry[self]) # 0 => myctr[T[self]] = entry[self]), 
+                         "Failure of assertion at line 142, column 11.")
+               /\ Drained(T[self])
+               /\ insig' = [insig EXCEPT ![T[self]] = FALSE]
+               /\ acc' = Ev(T[self], "sig_exit", "-", "-", "-", "-")
+               /\ pc' = [pc EXCEPT ![self] = "h_idle"]
+               /\ UNCHANGED << mem, sb, lock, registry, cursnap, qsr, sleeping, 
+                               woken, faults, sigs, myctr, hcs, alive, cs, pre, 
+                               T, htmp, hg, hf, hheld, entry, i, op, res, tmp, 
+                               g, f, held, old, oldh, popped, it, nx, st, wi, 
+                               wl, ph, scan, v, ipi, ret, mret >>
+
+sig(self) == h_idle(self) \/ h_ltop(self) \/ h_lld(self) \/ h_lst(self)
+                \/ h_lmb(self) \/ h_lin(self) \/ h_lnest(self)
+                \/ h_deref(self) \/ h_use(self) \/ h_utop(self)
+                \/ h_uout(self) \/ h_umb1(self) \/ h_ust(self)
+                \/ h_umb2(self) \/ h_uldf(self) \/ h_ustf(self)
+                \/ h_uwake(self) \/ h_unest(self) \/ h_ret(self)
 
 t_top(self) == /\ pc[self] = "t_top"
                /\ IF i[self] <= Len(Prog[self])
@@ -367,9 +710,10 @@ t_top(self) == /\ pc[self] = "t_top"
                      ELSE /\ pc' = [pc EXCEPT ![self] = "t_end"]
                           /\ UNCHANGED << op, res >>
                /\ UNCHANGED << mem, sb, lock, acc, registry, cursnap, qsr, 
-                               sleeping, woken, faults, alive, cs, pre, i, 
-                               myctr, g, f, held, old, oldh, popped, it, nx, 
-                               st, wi, wl, ph, scan, v, ipi, ret, mret >>
+                               sleeping, woken, faults, sigs, myctr, insig, 
+                               hcs, alive, cs, pre, T, htmp, hg, hf, hheld, 
+                               entry, i, tmp, g, f, held, old, oldh, popped, 
+                               it, nx, st, wi, wl, ph, scan, v, ipi, ret, mret >>
 
 t_disp(self) == /\ pc[self] = "t_disp"
                 /\ IF op[self].op = "reg"
@@ -394,7 +738,7 @@ t_disp(self) == /\ pc[self] = "t_disp"
                                                                                        old >>
                                                                   ELSE /\ IF op[self].op = "use"
                                                                              THEN /\ Assert(held[self] = NULL \/ alive[held[self]], 
-                                                                                            "Failure of assertion at line 101, column 37.")
+                                                                                            "Failure of assertion at line 163, column 37.")
                                                                                   /\ pc' = [pc EXCEPT ![self] = "t_ret"]
                                                                                   /\ UNCHANGED << alive, 
                                                                                                   res, 
@@ -419,9 +763,10 @@ t_disp(self) == /\ pc[self] = "t_disp"
                                                                                                                                    old >>
                                                                                                         /\ pc' = [pc EXCEPT ![self] = "t_ret"]
                 /\ UNCHANGED << mem, sb, lock, acc, registry, cursnap, qsr, 
-                                sleeping, woken, faults, cs, pre, i, op, myctr, 
-                                g, f, held, oldh, popped, it, nx, st, wi, wl, 
-                                ph, scan, v, ipi, ret, mret >>
+                                sleeping, woken, faults, sigs, myctr, insig, 
+                                hcs, cs, pre, T, htmp, hg, hf, hheld, entry, i, 
+                                op, tmp, g, f, held, oldh, popped, it, nx, st, 
+                                wi, wl, ph, scan, v, ipi, ret, mret >>
 
 g_lock(self) == /\ pc[self] = "g_lock"
                 /\ Drained(self) /\ lock["registry_lock"] = "free"
@@ -429,16 +774,18 @@ g_lock(self) == /\ pc[self] = "g_lock"
                 /\ acc' = Ev(self, "lock", "registry_lock", "-", "-", "-")
                 /\ pc' = [pc EXCEPT ![self] = "g_add"]
                 /\ UNCHANGED << mem, sb, registry, cursnap, qsr, sleeping, 
-                                woken, faults, alive, cs, pre, i, op, res, 
-                                myctr, g, f, held, old, oldh, popped, it, nx, 
-                                st, wi, wl, ph, scan, v, ipi, ret, mret >>
+                                woken, faults, sigs, myctr, insig, hcs, alive, 
+                                cs, pre, T, htmp, hg, hf, hheld, entry, i, op, 
+                                res, tmp, g, f, held, old, oldh, popped, it, 
+                                nx, st, wi, wl, ph, scan, v, ipi, ret, mret >>
 
 g_add(self) == /\ pc[self] = "g_add"
                /\ registry' = (registry \cup {self})
                /\ pc' = [pc EXCEPT ![self] = "g_unl"]
                /\ UNCHANGED << mem, sb, lock, acc, cursnap, qsr, sleeping, 
-                               woken, faults, alive, cs, pre, i, op, res, 
-                               myctr, g, f, held, old, oldh, popped, it, nx, 
+                               woken, faults, sigs, myctr, insig, hcs, alive, 
+                               cs, pre, T, htmp, hg, hf, hheld, entry, i, op, 
+                               res, tmp, g, f, held, old, oldh, popped, it, nx, 
                                st, wi, wl, ph, scan, v, ipi, ret, mret >>
 
 g_unl(self) == /\ pc[self] = "g_unl"
@@ -447,8 +794,9 @@ g_unl(self) == /\ pc[self] = "g_unl"
                /\ acc' = Ev(self, "unlock", "registry_lock", "-", "-", "-")
                /\ pc' = [pc EXCEPT ![self] = "t_ret"]
                /\ UNCHANGED << mem, sb, registry, cursnap, qsr, sleeping, 
-                               woken, faults, alive, cs, pre, i, op, res, 
-                               myctr, g, f, held, old, oldh, popped, it, nx, 
+                               woken, faults, sigs, myctr, insig, hcs, alive, 
+                               cs, pre, T, htmp, hg, hf, hheld, entry, i, op, 
+                               res, tmp, g, f, held, old, oldh, popped, it, nx, 
                                st, wi, wl, ph, scan, v, ipi, ret, mret >>
 
 x_lock(self) == /\ pc[self] = "x_lock"
@@ -457,9 +805,10 @@ x_lock(self) == /\ pc[self] = "x_lock"
                 /\ acc' = Ev(self, "lock", "registry_lock", "-", "-", "-")
                 /\ pc' = [pc EXCEPT ![self] = "x_del"]
                 /\ UNCHANGED << mem, sb, registry, cursnap, qsr, sleeping, 
-                                woken, faults, alive, cs, pre, i, op, res, 
-                                myctr, g, f, held, old, oldh, popped, it, nx, 
-                                st, wi, wl, ph, scan, v, ipi, ret, mret >>
+                                woken, faults, sigs, myctr, insig, hcs, alive, 
+                                cs, pre, T, htmp, hg, hf, hheld, entry, i, op, 
+                                res, tmp, g, f, held, old, oldh, popped, it, 
+                                nx, st, wi, wl, ph, scan, v, ipi, ret, mret >>
 
 x_del(self) == /\ pc[self] = "x_del"
                /\ /\ cursnap' = cursnap \ {self}
@@ -467,9 +816,10 @@ x_del(self) == /\ pc[self] = "x_del"
                   /\ registry' = registry \ {self}
                /\ pc' = [pc EXCEPT ![self] = "x_unl"]
                /\ UNCHANGED << mem, sb, lock, acc, sleeping, woken, faults, 
-                               alive, cs, pre, i, op, res, myctr, g, f, held, 
-                               old, oldh, popped, it, nx, st, wi, wl, ph, scan, 
-                               v, ipi, ret, mret >>
+                               sigs, myctr, insig, hcs, alive, cs, pre, T, 
+                               htmp, hg, hf, hheld, entry, i, op, res, tmp, g, 
+                               f, held, old, oldh, popped, it, nx, st, wi, wl, 
+                               ph, scan, v, ipi, ret, mret >>
 
 x_unl(self) == /\ pc[self] = "x_unl"
                /\ Drained(self)
@@ -477,27 +827,32 @@ x_unl(self) == /\ pc[self] = "x_unl"
                /\ acc' = Ev(self, "unlock", "registry_lock", "-", "-", "-")
                /\ pc' = [pc EXCEPT ![self] = "t_ret"]
                /\ UNCHANGED << mem, sb, registry, cursnap, qsr, sleeping, 
-                               woken, faults, alive, cs, pre, i, op, res, 
-                               myctr, g, f, held, old, oldh, popped, it, nx, 
+                               woken, faults, sigs, myctr, insig, hcs, alive, 
+                               cs, pre, T, htmp, hg, hf, hheld, entry, i, op, 
+                               res, tmp, g, f, held, old, oldh, popped, it, nx, 
                                st, wi, wl, ph, scan, v, ipi, ret, mret >>
 
 rl_top(self) == /\ pc[self] = "rl_top"
+                /\ tmp' = [tmp EXCEPT ![self] = myctr[self]]
                 /\ IF Nest(myctr[self]) # 0
                       THEN /\ pc' = [pc EXCEPT ![self] = "rl_nest"]
                       ELSE /\ pc' = [pc EXCEPT ![self] = "rl_ld"]
                 /\ UNCHANGED << mem, sb, lock, acc, registry, cursnap, qsr, 
-                                sleeping, woken, faults, alive, cs, pre, i, op, 
-                                res, myctr, g, f, held, old, oldh, popped, it, 
-                                nx, st, wi, wl, ph, scan, v, ipi, ret, mret >>
+                                sleeping, woken, faults, sigs, myctr, insig, 
+                                hcs, alive, cs, pre, T, htmp, hg, hf, hheld, 
+                                entry, i, op, res, g, f, held, old, oldh, 
+                                popped, it, nx, st, wi, wl, ph, scan, v, ipi, 
+                                ret, mret >>
 
 rl_ld(self) == /\ pc[self] = "rl_ld"
                /\ g' = [g EXCEPT ![self] = Rd(self, "gp_ctr")]
                /\ acc' = Ev(self, "ld", "gp_ctr", "-", "-", Rd(self, "gp_ctr"))
                /\ pc' = [pc EXCEPT ![self] = "rl_st"]
                /\ UNCHANGED << mem, sb, lock, registry, cursnap, qsr, sleeping, 
-                               woken, faults, alive, cs, pre, i, op, res, 
-                               myctr, f, held, old, oldh, popped, it, nx, st, 
-                               wi, wl, ph, scan, v, ipi, ret, mret >>
+                               woken, faults, sigs, myctr, insig, hcs, alive, 
+                               cs, pre, T, htmp, hg, hf, hheld, entry, i, op, 
+                               res, tmp, f, held, old, oldh, popped, it, nx, 
+                               st, wi, wl, ph, scan, v, ipi, ret, mret >>
 
 rl_st(self) == /\ pc[self] = "rl_st"
                /\ IF TSO
@@ -509,9 +864,10 @@ rl_st(self) == /\ pc[self] = "rl_st"
                /\ myctr' = [myctr EXCEPT ![self] = g[self]]
                /\ pc' = [pc EXCEPT ![self] = "rl_mb"]
                /\ UNCHANGED << lock, registry, cursnap, qsr, sleeping, woken, 
-                               faults, alive, cs, pre, i, op, res, g, f, held, 
-                               old, oldh, popped, it, nx, st, wi, wl, ph, scan, 
-                               v, ipi, ret, mret >>
+                               faults, sigs, insig, hcs, alive, cs, pre, T, 
+                               htmp, hg, hf, hheld, entry, i, op, res, tmp, g, 
+                               f, held, old, oldh, popped, it, nx, st, wi, wl, 
+                               ph, scan, v, ipi, ret, mret >>
 
 rl_mb(self) == /\ pc[self] = "rl_mb"
                /\ IF ReaderFence
@@ -521,51 +877,58 @@ rl_mb(self) == /\ pc[self] = "rl_mb"
                           /\ acc' = acc
                /\ pc' = [pc EXCEPT ![self] = "rl_in"]
                /\ UNCHANGED << mem, sb, lock, registry, cursnap, qsr, sleeping, 
-                               woken, faults, alive, cs, pre, i, op, res, 
-                               myctr, g, f, held, old, oldh, popped, it, nx, 
+                               woken, faults, sigs, myctr, insig, hcs, alive, 
+                               cs, pre, T, htmp, hg, hf, hheld, entry, i, op, 
+                               res, tmp, g, f, held, old, oldh, popped, it, nx, 
                                st, wi, wl, ph, scan, v, ipi, ret, mret >>
 
 rl_in(self) == /\ pc[self] = "rl_in"
                /\ cs' = [cs EXCEPT ![self] = i[self]]
                /\ pc' = [pc EXCEPT ![self] = "t_ret"]
                /\ UNCHANGED << mem, sb, lock, acc, registry, cursnap, qsr, 
-                               sleeping, woken, faults, alive, pre, i, op, res, 
-                               myctr, g, f, held, old, oldh, popped, it, nx, 
-                               st, wi, wl, ph, scan, v, ipi, ret, mret >>
+                               sleeping, woken, faults, sigs, myctr, insig, 
+                               hcs, alive, pre, T, htmp, hg, hf, hheld, entry, 
+                               i, op, res, tmp, g, f, held, old, oldh, popped, 
+                               it, nx, st, wi, wl, ph, scan, v, ipi, ret, mret >>
 
 rl_nest(self) == /\ pc[self] = "rl_nest"
                  /\ IF TSO
-                       THEN /\ sb' = [sb EXCEPT ![self] = Append(sb[self], <<(Rctr(self)), (myctr[self] + 1)>>)]
+                       THEN /\ sb' = [sb EXCEPT ![self] = Append(sb[self], <<(Rctr(self)), (tmp[self] + 1)>>)]
                             /\ mem' = mem
-                       ELSE /\ mem' = [mem EXCEPT ![(Rctr(self))] = myctr[self] + 1]
+                       ELSE /\ mem' = [mem EXCEPT ![(Rctr(self))] = tmp[self] + 1]
                             /\ sb' = sb
-                 /\ acc' = Ev(self, "st", (Rctr(self)), (myctr[self] + 1), "-", "-")
-                 /\ myctr' = [myctr EXCEPT ![self] = myctr[self] + 1]
+                 /\ acc' = Ev(self, "st", (Rctr(self)), (tmp[self] + 1), "-", "-")
+                 /\ myctr' = [myctr EXCEPT ![self] = tmp[self] + 1]
                  /\ pc' = [pc EXCEPT ![self] = "t_ret"]
                  /\ UNCHANGED << lock, registry, cursnap, qsr, sleeping, woken, 
-                                 faults, alive, cs, pre, i, op, res, g, f, 
-                                 held, old, oldh, popped, it, nx, st, wi, wl, 
-                                 ph, scan, v, ipi, ret, mret >>
+                                 faults, sigs, insig, hcs, alive, cs, pre, T, 
+                                 htmp, hg, hf, hheld, entry, i, op, res, tmp, 
+                                 g, f, held, old, oldh, popped, it, nx, st, wi, 
+                                 wl, ph, scan, v, ipi, ret, mret >>
 
 ru_top(self) == /\ pc[self] = "ru_top"
                 /\ Assert(held[self] = NULL \/ alive[held[self]], 
-                          "Failure of assertion at line 127, column 11.")
+                          "Failure of assertion at line 190, column 11.")
+                /\ tmp' = [tmp EXCEPT ![self] = myctr[self]]
                 /\ IF Nest(myctr[self]) # 1
                       THEN /\ pc' = [pc EXCEPT ![self] = "ru_nest"]
                       ELSE /\ pc' = [pc EXCEPT ![self] = "ru_out"]
                 /\ UNCHANGED << mem, sb, lock, acc, registry, cursnap, qsr, 
-                                sleeping, woken, faults, alive, cs, pre, i, op, 
-                                res, myctr, g, f, held, old, oldh, popped, it, 
-                                nx, st, wi, wl, ph, scan, v, ipi, ret, mret >>
+                                sleeping, woken, faults, sigs, myctr, insig, 
+                                hcs, alive, cs, pre, T, htmp, hg, hf, hheld, 
+                                entry, i, op, res, g, f, held, old, oldh, 
+                                popped, it, nx, st, wi, wl, ph, scan, v, ipi, 
+                                ret, mret >>
 
 ru_out(self) == /\ pc[self] = "ru_out"
                 /\ cs' = [cs EXCEPT ![self] = 0]
                 /\ held' = [held EXCEPT ![self] = NULL]
                 /\ pc' = [pc EXCEPT ![self] = "ru_mb1"]
                 /\ UNCHANGED << mem, sb, lock, acc, registry, cursnap, qsr, 
-                                sleeping, woken, faults, alive, pre, i, op, 
-                                res, myctr, g, f, old, oldh, popped, it, nx, 
-                                st, wi, wl, ph, scan, v, ipi, ret, mret >>
+                                sleeping, woken, faults, sigs, myctr, insig, 
+                                hcs, alive, pre, T, htmp, hg, hf, hheld, entry, 
+                                i, op, res, tmp, g, f, old, oldh, popped, it, 
+                                nx, st, wi, wl, ph, scan, v, ipi, ret, mret >>
 
 ru_mb1(self) == /\ pc[self] = "ru_mb1"
                 /\ IF Flavor = "memb" /\ ReaderFence
@@ -575,28 +938,31 @@ ru_mb1(self) == /\ pc[self] = "ru_mb1"
                            /\ acc' = acc
                 /\ pc' = [pc EXCEPT ![self] = "ru_st"]
                 /\ UNCHANGED << mem, sb, lock, registry, cursnap, qsr, 
-                                sleeping, woken, faults, alive, cs, pre, i, op, 
-                                res, myctr, g, f, held, old, oldh, popped, it, 
-                                nx, st, wi, wl, ph, scan, v, ipi, ret, mret >>
+                                sleeping, woken, faults, sigs, myctr, insig, 
+                                hcs, alive, cs, pre, T, htmp, hg, hf, hheld, 
+                                entry, i, op, res, tmp, g, f, held, old, oldh, 
+                                popped, it, nx, st, wi, wl, ph, scan, v, ipi, 
+                                ret, mret >>
 
 ru_st(self) == /\ pc[self] = "ru_st"
                /\ IF Flavor = "mb"
                      THEN /\ Drained(self)
-                          /\ mem' = [mem EXCEPT ![(Rctr(self))] = myctr[self] - 1]
-                          /\ acc' = Ev(self, "st", (Rctr(self)), (myctr[self] - 1), "-", "-")
+                          /\ mem' = [mem EXCEPT ![(Rctr(self))] = tmp[self] - 1]
+                          /\ acc' = Ev(self, "st", (Rctr(self)), (tmp[self] - 1), "-", "-")
                           /\ sb' = sb
                      ELSE /\ IF TSO
-                                THEN /\ sb' = [sb EXCEPT ![self] = Append(sb[self], <<(Rctr(self)), (myctr[self] - 1)>>)]
+                                THEN /\ sb' = [sb EXCEPT ![self] = Append(sb[self], <<(Rctr(self)), (tmp[self] - 1)>>)]
                                      /\ mem' = mem
-                                ELSE /\ mem' = [mem EXCEPT ![(Rctr(self))] = myctr[self] - 1]
+                                ELSE /\ mem' = [mem EXCEPT ![(Rctr(self))] = tmp[self] - 1]
                                      /\ sb' = sb
-                          /\ acc' = Ev(self, "st", (Rctr(self)), (myctr[self] - 1), "-", "-")
-               /\ myctr' = [myctr EXCEPT ![self] = myctr[self] - 1]
+                          /\ acc' = Ev(self, "st", (Rctr(self)), (tmp[self] - 1), "-", "-")
+               /\ myctr' = [myctr EXCEPT ![self] = tmp[self] - 1]
                /\ pc' = [pc EXCEPT ![self] = "ru_mb2"]
                /\ UNCHANGED << lock, registry, cursnap, qsr, sleeping, woken, 
-                               faults, alive, cs, pre, i, op, res, g, f, held, 
-                               old, oldh, popped, it, nx, st, wi, wl, ph, scan, 
-                               v, ipi, ret, mret >>
+                               faults, sigs, insig, hcs, alive, cs, pre, T, 
+                               htmp, hg, hf, hheld, entry, i, op, res, tmp, g, 
+                               f, held, old, oldh, popped, it, nx, st, wi, wl, 
+                               ph, scan, v, ipi, ret, mret >>
 
 ru_mb2(self) == /\ pc[self] = "ru_mb2"
                 /\ IF Flavor = "memb" /\ ReaderFence
@@ -606,9 +972,11 @@ ru_mb2(self) == /\ pc[self] = "ru_mb2"
                            /\ acc' = acc
                 /\ pc' = [pc EXCEPT ![self] = "ru_ldf"]
                 /\ UNCHANGED << mem, sb, lock, registry, cursnap, qsr, 
-                                sleeping, woken, faults, alive, cs, pre, i, op, 
-                                res, myctr, g, f, held, old, oldh, popped, it, 
-                                nx, st, wi, wl, ph, scan, v, ipi, ret, mret >>
+                                sleeping, woken, faults, sigs, myctr, insig, 
+                                hcs, alive, cs, pre, T, htmp, hg, hf, hheld, 
+                                entry, i, op, res, tmp, g, f, held, old, oldh, 
+                                popped, it, nx, st, wi, wl, ph, scan, v, ipi, 
+                                ret, mret >>
 
 ru_ldf(self) == /\ pc[self] = "ru_ldf"
                 /\ f' = [f EXCEPT ![self] = Rd(self, "gp_futex")]
@@ -617,9 +985,11 @@ ru_ldf(self) == /\ pc[self] = "ru_ldf"
                       THEN /\ pc' = [pc EXCEPT ![self] = "t_ret"]
                       ELSE /\ pc' = [pc EXCEPT ![self] = "ru_stf"]
                 /\ UNCHANGED << mem, sb, lock, registry, cursnap, qsr, 
-                                sleeping, woken, faults, alive, cs, pre, i, op, 
-                                res, myctr, g, held, old, oldh, popped, it, nx, 
-                                st, wi, wl, ph, scan, v, ipi, ret, mret >>
+                                sleeping, woken, faults, sigs, myctr, insig, 
+                                hcs, alive, cs, pre, T, htmp, hg, hf, hheld, 
+                                entry, i, op, res, tmp, g, held, old, oldh, 
+                                popped, it, nx, st, wi, wl, ph, scan, v, ipi, 
+                                ret, mret >>
 
 ru_stf(self) == /\ pc[self] = "ru_stf"
                 /\ IF TSO
@@ -630,9 +1000,10 @@ ru_stf(self) == /\ pc[self] = "ru_stf"
                 /\ acc' = Ev(self, "st", "gp_futex", 0, "-", "-")
                 /\ pc' = [pc EXCEPT ![self] = "ru_wake"]
                 /\ UNCHANGED << lock, registry, cursnap, qsr, sleeping, woken, 
-                                faults, alive, cs, pre, i, op, res, myctr, g, 
-                                f, held, old, oldh, popped, it, nx, st, wi, wl, 
-                                ph, scan, v, ipi, ret, mret >>
+                                faults, sigs, myctr, insig, hcs, alive, cs, 
+                                pre, T, htmp, hg, hf, hheld, entry, i, op, res, 
+                                tmp, g, f, held, old, oldh, popped, it, nx, st, 
+                                wi, wl, ph, scan, v, ipi, ret, mret >>
 
 ru_wake(self) == /\ pc[self] = "ru_wake"
                  /\ Drained(self)
@@ -645,23 +1016,26 @@ ru_wake(self) == /\ pc[self] = "ru_wake"
                       /\ acc' = Ev(self, "fwake", "gp_futex", "-", "-", IF w = "none" THEN 0 ELSE 1)
                  /\ pc' = [pc EXCEPT ![self] = "t_ret"]
                  /\ UNCHANGED << mem, sb, lock, registry, cursnap, qsr, 
-                                 sleeping, faults, alive, cs, pre, i, op, res, 
-                                 myctr, g, f, held, old, oldh, popped, it, nx, 
-                                 st, wi, wl, ph, scan, v, ipi, ret, mret >>
+                                 sleeping, faults, sigs, myctr, insig, hcs, 
+                                 alive, cs, pre, T, htmp, hg, hf, hheld, entry, 
+                                 i, op, res, tmp, g, f, held, old, oldh, 
+                                 popped, it, nx, st, wi, wl, ph, scan, v, ipi, 
+                                 ret, mret >>
 
 ru_nest(self) == /\ pc[self] = "ru_nest"
                  /\ IF TSO
-                       THEN /\ sb' = [sb EXCEPT ![self] = Append(sb[self], <<(Rctr(self)), (myctr[self] - 1)>>)]
+                       THEN /\ sb' = [sb EXCEPT ![self] = Append(sb[self], <<(Rctr(self)), (tmp[self] - 1)>>)]
                             /\ mem' = mem
-                       ELSE /\ mem' = [mem EXCEPT ![(Rctr(self))] = myctr[self] - 1]
+                       ELSE /\ mem' = [mem EXCEPT ![(Rctr(self))] = tmp[self] - 1]
                             /\ sb' = sb
-                 /\ acc' = Ev(self, "st", (Rctr(self)), (myctr[self] - 1), "-", "-")
-                 /\ myctr' = [myctr EXCEPT ![self] = myctr[self] - 1]
+                 /\ acc' = Ev(self, "st", (Rctr(self)), (tmp[self] - 1), "-", "-")
+                 /\ myctr' = [myctr EXCEPT ![self] = tmp[self] - 1]
                  /\ pc' = [pc EXCEPT ![self] = "t_ret"]
                  /\ UNCHANGED << lock, registry, cursnap, qsr, sleeping, woken, 
-                                 faults, alive, cs, pre, i, op, res, g, f, 
-                                 held, old, oldh, popped, it, nx, st, wi, wl, 
-                                 ph, scan, v, ipi, ret, mret >>
+                                 faults, sigs, insig, hcs, alive, cs, pre, T, 
+                                 htmp, hg, hf, hheld, entry, i, op, res, tmp, 
+                                 g, f, held, old, oldh, popped, it, nx, st, wi, 
+                                 wl, ph, scan, v, ipi, ret, mret >>
 
 dr_ld(self) == /\ pc[self] = "dr_ld"
                /\ held' = [held EXCEPT ![self] = Rd(self, "gptr")]
@@ -669,9 +1043,10 @@ dr_ld(self) == /\ pc[self] = "dr_ld"
                /\ res' = [res EXCEPT ![self] = held'[self]]
                /\ pc' = [pc EXCEPT ![self] = "t_ret"]
                /\ UNCHANGED << mem, sb, lock, registry, cursnap, qsr, sleeping, 
-                               woken, faults, alive, cs, pre, i, op, myctr, g, 
-                               f, old, oldh, popped, it, nx, st, wi, wl, ph, 
-                               scan, v, ipi, ret, mret >>
+                               woken, faults, sigs, myctr, insig, hcs, alive, 
+                               cs, pre, T, htmp, hg, hf, hheld, entry, i, op, 
+                               tmp, g, f, old, oldh, popped, it, nx, st, wi, 
+                               wl, ph, scan, v, ipi, ret, mret >>
 
 p_xchg(self) == /\ pc[self] = "p_xchg"
                 /\ Drained(self)
@@ -681,25 +1056,29 @@ p_xchg(self) == /\ pc[self] = "p_xchg"
                 /\ res' = [res EXCEPT ![self] = old'[self]]
                 /\ pc' = [pc EXCEPT ![self] = "t_ret"]
                 /\ UNCHANGED << sb, lock, registry, cursnap, qsr, sleeping, 
-                                woken, faults, alive, cs, pre, i, op, myctr, g, 
-                                f, held, oldh, popped, it, nx, st, wi, wl, ph, 
-                                scan, v, ipi, ret, mret >>
+                                woken, faults, sigs, myctr, insig, hcs, alive, 
+                                cs, pre, T, htmp, hg, hf, hheld, entry, i, op, 
+                                tmp, g, f, held, oldh, popped, it, nx, st, wi, 
+                                wl, ph, scan, v, ipi, ret, mret >>
 
 s_call(self) == /\ pc[self] = "s_call"
                 /\ pre' = [pre EXCEPT ![self] = OpenCS]
                 /\ pc' = [pc EXCEPT ![self] = "s_mb0"]
                 /\ UNCHANGED << mem, sb, lock, acc, registry, cursnap, qsr, 
-                                sleeping, woken, faults, alive, cs, i, op, res, 
-                                myctr, g, f, held, old, oldh, popped, it, nx, 
-                                st, wi, wl, ph, scan, v, ipi, ret, mret >>
+                                sleeping, woken, faults, sigs, myctr, insig, 
+                                hcs, alive, cs, T, htmp, hg, hf, hheld, entry, 
+                                i, op, res, tmp, g, f, held, old, oldh, popped, 
+                                it, nx, st, wi, wl, ph, scan, v, ipi, ret, 
+                                mret >>
 
 s_mb0(self) == /\ pc[self] = "s_mb0"
                /\ Drained(self)
                /\ acc' = Ev(self, "mb", "-", "-", "-", "-")
                /\ pc' = [pc EXCEPT ![self] = "s_push"]
                /\ UNCHANGED << mem, sb, lock, registry, cursnap, qsr, sleeping, 
-                               woken, faults, alive, cs, pre, i, op, res, 
-                               myctr, g, f, held, old, oldh, popped, it, nx, 
+                               woken, faults, sigs, myctr, insig, hcs, alive, 
+                               cs, pre, T, htmp, hg, hf, hheld, entry, i, op, 
+                               res, tmp, g, f, held, old, oldh, popped, it, nx, 
                                st, wi, wl, ph, scan, v, ipi, ret, mret >>
 
 s_push(self) == /\ pc[self] = "s_push"
@@ -709,9 +1088,10 @@ s_push(self) == /\ pc[self] = "s_push"
                 /\ acc' = Ev(self, "xchg", "waiters", (Wn(self)), "-", oldh'[self])
                 /\ pc' = [pc EXCEPT ![self] = "s_link"]
                 /\ UNCHANGED << sb, lock, registry, cursnap, qsr, sleeping, 
-                                woken, faults, alive, cs, pre, i, op, res, 
-                                myctr, g, f, held, old, popped, it, nx, st, wi, 
-                                wl, ph, scan, v, ipi, ret, mret >>
+                                woken, faults, sigs, myctr, insig, hcs, alive, 
+                                cs, pre, T, htmp, hg, hf, hheld, entry, i, op, 
+                                res, tmp, g, f, held, old, popped, it, nx, st, 
+                                wi, wl, ph, scan, v, ipi, ret, mret >>
 
 s_link(self) == /\ pc[self] = "s_link"
                 /\ IF TSO
@@ -726,17 +1106,24 @@ s_link(self) == /\ pc[self] = "s_link"
                       ELSE /\ pc' = [pc EXCEPT ![self] = "s_run"]
                            /\ wi' = wi
                 /\ UNCHANGED << lock, registry, cursnap, qsr, sleeping, woken, 
-                                faults, alive, cs, pre, i, op, res, myctr, g, 
-                                f, held, old, oldh, popped, it, nx, st, wl, ph, 
-                                scan, v, ipi, ret, mret >>
+                                faults, sigs, myctr, insig, hcs, alive, cs, 
+                                pre, T, htmp, hg, hf, hheld, entry, i, op, res, 
+                                tmp, g, f, held, old, oldh, popped, it, nx, st, 
+                                wl, ph, scan, v, ipi, ret, mret >>
 
 s_run(self) == /\ pc[self] = "s_run"
-               /\ TRUE
+               /\ IF Tracing \/ ~TSO
+                     THEN /\ Drained(self)
+                          /\ mem' = [mem EXCEPT ![WnState(Wn(self))] = RUNNING]
+                          /\ sb' = sb
+                     ELSE /\ sb' = [sb EXCEPT ![self] = Append(sb[self], <<WnState(Wn(self)), RUNNING>>)]
+                          /\ mem' = mem
                /\ pc' = [pc EXCEPT ![self] = "s_gplk"]
-               /\ UNCHANGED << mem, sb, lock, acc, registry, cursnap, qsr, 
-                               sleeping, woken, faults, alive, cs, pre, i, op, 
-                               res, myctr, g, f, held, old, oldh, popped, it, 
-                               nx, st, wi, wl, ph, scan, v, ipi, ret, mret >>
+               /\ UNCHANGED << lock, acc, registry, cursnap, qsr, sleeping, 
+                               woken, faults, sigs, myctr, insig, hcs, alive, 
+                               cs, pre, T, htmp, hg, hf, hheld, entry, i, op, 
+                               res, tmp, g, f, held, old, oldh, popped, it, nx, 
+                               st, wi, wl, ph, scan, v, ipi, ret, mret >>
 
 s_gplk(self) == /\ pc[self] = "s_gplk"
                 /\ Drained(self) /\ lock["gp_lock"] = "free"
@@ -744,9 +1131,10 @@ s_gplk(self) == /\ pc[self] = "s_gplk"
                 /\ acc' = Ev(self, "lock", "gp_lock", "-", "-", "-")
                 /\ pc' = [pc EXCEPT ![self] = "s_pop"]
                 /\ UNCHANGED << mem, sb, registry, cursnap, qsr, sleeping, 
-                                woken, faults, alive, cs, pre, i, op, res, 
-                                myctr, g, f, held, old, oldh, popped, it, nx, 
-                                st, wi, wl, ph, scan, v, ipi, ret, mret >>
+                                woken, faults, sigs, myctr, insig, hcs, alive, 
+                                cs, pre, T, htmp, hg, hf, hheld, entry, i, op, 
+                                res, tmp, g, f, held, old, oldh, popped, it, 
+                                nx, st, wi, wl, ph, scan, v, ipi, ret, mret >>
 
 s_pop(self) == /\ pc[self] = "s_pop"
                /\ Drained(self)
@@ -755,8 +1143,9 @@ s_pop(self) == /\ pc[self] = "s_pop"
                /\ acc' = Ev(self, "xchg", "waiters", END, "-", popped'[self])
                /\ pc' = [pc EXCEPT ![self] = "s_popmb"]
                /\ UNCHANGED << sb, lock, registry, cursnap, qsr, sleeping, 
-                               woken, faults, alive, cs, pre, i, op, res, 
-                               myctr, g, f, held, old, oldh, it, nx, st, wi, 
+                               woken, faults, sigs, myctr, insig, hcs, alive, 
+                               cs, pre, T, htmp, hg, hf, hheld, entry, i, op, 
+                               res, tmp, g, f, held, old, oldh, it, nx, st, wi, 
                                wl, ph, scan, v, ipi, ret, mret >>
 
 s_popmb(self) == /\ pc[self] = "s_popmb"
@@ -764,10 +1153,11 @@ s_popmb(self) == /\ pc[self] = "s_popmb"
                  /\ acc' = Ev(self, "mb", "-", "-", "-", "-")
                  /\ pc' = [pc EXCEPT ![self] = "s_rglk"]
                  /\ UNCHANGED << mem, sb, lock, registry, cursnap, qsr, 
-                                 sleeping, woken, faults, alive, cs, pre, i, 
-                                 op, res, myctr, g, f, held, old, oldh, popped, 
-                                 it, nx, st, wi, wl, ph, scan, v, ipi, ret, 
-                                 mret >>
+                                 sleeping, woken, faults, sigs, myctr, insig, 
+                                 hcs, alive, cs, pre, T, htmp, hg, hf, hheld, 
+                                 entry, i, op, res, tmp, g, f, held, old, oldh, 
+                                 popped, it, nx, st, wi, wl, ph, scan, v, ipi, 
+                                 ret, mret >>
 
 s_rglk(self) == /\ pc[self] = "s_rglk"
                 /\ Drained(self) /\ lock["registry_lock"] = "free"
@@ -777,25 +1167,29 @@ s_rglk(self) == /\ pc[self] = "s_rglk"
                       THEN /\ pc' = [pc EXCEPT ![self] = "s_out"]
                       ELSE /\ pc' = [pc EXCEPT ![self] = "s_mm1"]
                 /\ UNCHANGED << mem, sb, registry, cursnap, qsr, sleeping, 
-                                woken, faults, alive, cs, pre, i, op, res, 
-                                myctr, g, f, held, old, oldh, popped, it, nx, 
-                                st, wi, wl, ph, scan, v, ipi, ret, mret >>
+                                woken, faults, sigs, myctr, insig, hcs, alive, 
+                                cs, pre, T, htmp, hg, hf, hheld, entry, i, op, 
+                                res, tmp, g, f, held, old, oldh, popped, it, 
+                                nx, st, wi, wl, ph, scan, v, ipi, ret, mret >>
 
 s_mm1(self) == /\ pc[self] = "s_mm1"
                /\ mret' = [mret EXCEPT ![self] = "s_p1"]
                /\ pc' = [pc EXCEPT ![self] = "master"]
                /\ UNCHANGED << mem, sb, lock, acc, registry, cursnap, qsr, 
-                               sleeping, woken, faults, alive, cs, pre, i, op, 
-                               res, myctr, g, f, held, old, oldh, popped, it, 
-                               nx, st, wi, wl, ph, scan, v, ipi, ret >>
+                               sleeping, woken, faults, sigs, myctr, insig, 
+                               hcs, alive, cs, pre, T, htmp, hg, hf, hheld, 
+                               entry, i, op, res, tmp, g, f, held, old, oldh, 
+                               popped, it, nx, st, wi, wl, ph, scan, v, ipi, 
+                               ret >>
 
 s_p1(self) == /\ pc[self] = "s_p1"
               /\ ph' = [ph EXCEPT ![self] = 1]
               /\ ret' = [ret EXCEPT ![self] = "s_mb2"]
               /\ pc' = [pc EXCEPT ![self] = "w_top"]
               /\ UNCHANGED << mem, sb, lock, acc, registry, cursnap, qsr, 
-                              sleeping, woken, faults, alive, cs, pre, i, op, 
-                              res, myctr, g, f, held, old, oldh, popped, it, 
+                              sleeping, woken, faults, sigs, myctr, insig, hcs, 
+                              alive, cs, pre, T, htmp, hg, hf, hheld, entry, i, 
+                              op, res, tmp, g, f, held, old, oldh, popped, it, 
                               nx, st, wi, wl, scan, v, ipi, mret >>
 
 s_mb2(self) == /\ pc[self] = "s_mb2"
@@ -803,8 +1197,9 @@ s_mb2(self) == /\ pc[self] = "s_mb2"
                /\ acc' = Ev(self, "mb", "-", "-", "-", "-")
                /\ pc' = [pc EXCEPT ![self] = "s_flip"]
                /\ UNCHANGED << mem, sb, lock, registry, cursnap, qsr, sleeping, 
-                               woken, faults, alive, cs, pre, i, op, res, 
-                               myctr, g, f, held, old, oldh, popped, it, nx, 
+                               woken, faults, sigs, myctr, insig, hcs, alive, 
+                               cs, pre, T, htmp, hg, hf, hheld, entry, i, op, 
+                               res, tmp, g, f, held, old, oldh, popped, it, nx, 
                                st, wi, wl, ph, scan, v, ipi, ret, mret >>
 
 s_flip(self) == /\ pc[self] = "s_flip"
@@ -816,17 +1211,19 @@ s_flip(self) == /\ pc[self] = "s_flip"
                 /\ acc' = Ev(self, "st", "gp_ctr", (IF Ph(Rd(self, "gp_ctr")) = 0 THEN Rd(self, "gp_ctr") + PHASE ELSE Rd(self, "gp_ctr") - PHASE), "-", "-")
                 /\ pc' = [pc EXCEPT ![self] = "s_mb3"]
                 /\ UNCHANGED << lock, registry, cursnap, qsr, sleeping, woken, 
-                                faults, alive, cs, pre, i, op, res, myctr, g, 
-                                f, held, old, oldh, popped, it, nx, st, wi, wl, 
-                                ph, scan, v, ipi, ret, mret >>
+                                faults, sigs, myctr, insig, hcs, alive, cs, 
+                                pre, T, htmp, hg, hf, hheld, entry, i, op, res, 
+                                tmp, g, f, held, old, oldh, popped, it, nx, st, 
+                                wi, wl, ph, scan, v, ipi, ret, mret >>
 
 s_mb3(self) == /\ pc[self] = "s_mb3"
                /\ Drained(self)
                /\ acc' = Ev(self, "mb", "-", "-", "-", "-")
                /\ pc' = [pc EXCEPT ![self] = "s_p2"]
                /\ UNCHANGED << mem, sb, lock, registry, cursnap, qsr, sleeping, 
-                               woken, faults, alive, cs, pre, i, op, res, 
-                               myctr, g, f, held, old, oldh, popped, it, nx, 
+                               woken, faults, sigs, myctr, insig, hcs, alive, 
+                               cs, pre, T, htmp, hg, hf, hheld, entry, i, op, 
+                               res, tmp, g, f, held, old, oldh, popped, it, nx, 
                                st, wi, wl, ph, scan, v, ipi, ret, mret >>
 
 s_p2(self) == /\ pc[self] = "s_p2"
@@ -834,8 +1231,9 @@ s_p2(self) == /\ pc[self] = "s_p2"
               /\ ret' = [ret EXCEPT ![self] = "s_splice"]
               /\ pc' = [pc EXCEPT ![self] = "w_top"]
               /\ UNCHANGED << mem, sb, lock, acc, registry, cursnap, qsr, 
-                              sleeping, woken, faults, alive, cs, pre, i, op, 
-                              res, myctr, g, f, held, old, oldh, popped, it, 
+                              sleeping, woken, faults, sigs, myctr, insig, hcs, 
+                              alive, cs, pre, T, htmp, hg, hf, hheld, entry, i, 
+                              op, res, tmp, g, f, held, old, oldh, popped, it, 
                               nx, st, wi, wl, scan, v, ipi, mret >>
 
 s_splice(self) == /\ pc[self] = "s_splice"
@@ -843,17 +1241,20 @@ s_splice(self) == /\ pc[self] = "s_splice"
                      /\ registry' = (registry \cup qsr)
                   /\ pc' = [pc EXCEPT ![self] = "s_mm2"]
                   /\ UNCHANGED << mem, sb, lock, acc, cursnap, sleeping, woken, 
-                                  faults, alive, cs, pre, i, op, res, myctr, g, 
-                                  f, held, old, oldh, popped, it, nx, st, wi, 
-                                  wl, ph, scan, v, ipi, ret, mret >>
+                                  faults, sigs, myctr, insig, hcs, alive, cs, 
+                                  pre, T, htmp, hg, hf, hheld, entry, i, op, 
+                                  res, tmp, g, f, held, old, oldh, popped, it, 
+                                  nx, st, wi, wl, ph, scan, v, ipi, ret, mret >>
 
 s_mm2(self) == /\ pc[self] = "s_mm2"
                /\ mret' = [mret EXCEPT ![self] = "s_out"]
                /\ pc' = [pc EXCEPT ![self] = "master"]
                /\ UNCHANGED << mem, sb, lock, acc, registry, cursnap, qsr, 
-                               sleeping, woken, faults, alive, cs, pre, i, op, 
-                               res, myctr, g, f, held, old, oldh, popped, it, 
-                               nx, st, wi, wl, ph, scan, v, ipi, ret >>
+                               sleeping, woken, faults, sigs, myctr, insig, 
+                               hcs, alive, cs, pre, T, htmp, hg, hf, hheld, 
+                               entry, i, op, res, tmp, g, f, held, old, oldh, 
+                               popped, it, nx, st, wi, wl, ph, scan, v, ipi, 
+                               ret >>
 
 s_out(self) == /\ pc[self] = "s_out"
                /\ Drained(self)
@@ -861,8 +1262,9 @@ s_out(self) == /\ pc[self] = "s_out"
                /\ acc' = Ev(self, "unlock", "registry_lock", "-", "-", "-")
                /\ pc' = [pc EXCEPT ![self] = "s_gpun"]
                /\ UNCHANGED << mem, sb, registry, cursnap, qsr, sleeping, 
-                               woken, faults, alive, cs, pre, i, op, res, 
-                               myctr, g, f, held, old, oldh, popped, it, nx, 
+                               woken, faults, sigs, myctr, insig, hcs, alive, 
+                               cs, pre, T, htmp, hg, hf, hheld, entry, i, op, 
+                               res, tmp, g, f, held, old, oldh, popped, it, nx, 
                                st, wi, wl, ph, scan, v, ipi, ret, mret >>
 
 s_gpun(self) == /\ pc[self] = "s_gpun"
@@ -872,18 +1274,21 @@ s_gpun(self) == /\ pc[self] = "s_gpun"
                 /\ it' = [it EXCEPT ![self] = popped[self]]
                 /\ pc' = [pc EXCEPT ![self] = "k_top"]
                 /\ UNCHANGED << mem, sb, registry, cursnap, qsr, sleeping, 
-                                woken, faults, alive, cs, pre, i, op, res, 
-                                myctr, g, f, held, old, oldh, popped, nx, st, 
-                                wi, wl, ph, scan, v, ipi, ret, mret >>
+                                woken, faults, sigs, myctr, insig, hcs, alive, 
+                                cs, pre, T, htmp, hg, hf, hheld, entry, i, op, 
+                                res, tmp, g, f, held, old, oldh, popped, nx, 
+                                st, wi, wl, ph, scan, v, ipi, ret, mret >>
 
 k_top(self) == /\ pc[self] = "k_top"
                /\ IF it[self] = END
                      THEN /\ pc' = [pc EXCEPT ![self] = "s_ret"]
                      ELSE /\ pc' = [pc EXCEPT ![self] = "k_next"]
                /\ UNCHANGED << mem, sb, lock, acc, registry, cursnap, qsr, 
-                               sleeping, woken, faults, alive, cs, pre, i, op, 
-                               res, myctr, g, f, held, old, oldh, popped, it, 
-                               nx, st, wi, wl, ph, scan, v, ipi, ret, mret >>
+                               sleeping, woken, faults, sigs, myctr, insig, 
+                               hcs, alive, cs, pre, T, htmp, hg, hf, hheld, 
+                               entry, i, op, res, tmp, g, f, held, old, oldh, 
+                               popped, it, nx, st, wi, wl, ph, scan, v, ipi, 
+                               ret, mret >>
 
 k_next(self) == /\ pc[self] = "k_next"
                 /\ nx' = [nx EXCEPT ![self] = Rd(self, (WnNext(it[self])))]
@@ -892,9 +1297,11 @@ k_next(self) == /\ pc[self] = "k_next"
                       THEN /\ pc' = [pc EXCEPT ![self] = "k_next"]
                       ELSE /\ pc' = [pc EXCEPT ![self] = "k_ldst"]
                 /\ UNCHANGED << mem, sb, lock, registry, cursnap, qsr, 
-                                sleeping, woken, faults, alive, cs, pre, i, op, 
-                                res, myctr, g, f, held, old, oldh, popped, it, 
-                                st, wi, wl, ph, scan, v, ipi, ret, mret >>
+                                sleeping, woken, faults, sigs, myctr, insig, 
+                                hcs, alive, cs, pre, T, htmp, hg, hf, hheld, 
+                                entry, i, op, res, tmp, g, f, held, old, oldh, 
+                                popped, it, st, wi, wl, ph, scan, v, ipi, ret, 
+                                mret >>
 
 k_ldst(self) == /\ pc[self] = "k_ldst"
                 /\ st' = [st EXCEPT ![self] = Rd(self, (WnState(it[self])))]
@@ -905,20 +1312,23 @@ k_ldst(self) == /\ pc[self] = "k_ldst"
                       ELSE /\ pc' = [pc EXCEPT ![self] = "k_as"]
                            /\ it' = it
                 /\ UNCHANGED << mem, sb, lock, registry, cursnap, qsr, 
-                                sleeping, woken, faults, alive, cs, pre, i, op, 
-                                res, myctr, g, f, held, old, oldh, popped, nx, 
-                                wi, wl, ph, scan, v, ipi, ret, mret >>
+                                sleeping, woken, faults, sigs, myctr, insig, 
+                                hcs, alive, cs, pre, T, htmp, hg, hf, hheld, 
+                                entry, i, op, res, tmp, g, f, held, old, oldh, 
+                                popped, nx, wi, wl, ph, scan, v, ipi, ret, 
+                                mret >>
 
 k_as(self) == /\ pc[self] = "k_as"
               /\ st' = [st EXCEPT ![self] = Rd(self, (WnState(it[self])))]
               /\ acc' = Ev(self, "ld", (WnState(it[self])), "-", "-", Rd(self, (WnState(it[self]))))
               /\ Assert(st'[self] = WAITING, 
-                        "Failure of assertion at line 184, column 11.")
+                        "Failure of assertion at line 249, column 11.")
               /\ pc' = [pc EXCEPT ![self] = "k_wk"]
               /\ UNCHANGED << mem, sb, lock, registry, cursnap, qsr, sleeping, 
-                              woken, faults, alive, cs, pre, i, op, res, myctr, 
-                              g, f, held, old, oldh, popped, it, nx, wi, wl, 
-                              ph, scan, v, ipi, ret, mret >>
+                              woken, faults, sigs, myctr, insig, hcs, alive, 
+                              cs, pre, T, htmp, hg, hf, hheld, entry, i, op, 
+                              res, tmp, g, f, held, old, oldh, popped, it, nx, 
+                              wi, wl, ph, scan, v, ipi, ret, mret >>
 
 k_wk(self) == /\ pc[self] = "k_wk"
               /\ IF TSO
@@ -929,9 +1339,10 @@ k_wk(self) == /\ pc[self] = "k_wk"
               /\ acc' = Ev(self, "st", (WnState(it[self])), WAKEUP, "-", "-")
               /\ pc' = [pc EXCEPT ![self] = "k_ld2"]
               /\ UNCHANGED << lock, registry, cursnap, qsr, sleeping, woken, 
-                              faults, alive, cs, pre, i, op, res, myctr, g, f, 
-                              held, old, oldh, popped, it, nx, st, wi, wl, ph, 
-                              scan, v, ipi, ret, mret >>
+                              faults, sigs, myctr, insig, hcs, alive, cs, pre, 
+                              T, htmp, hg, hf, hheld, entry, i, op, res, tmp, 
+                              g, f, held, old, oldh, popped, it, nx, st, wi, 
+                              wl, ph, scan, v, ipi, ret, mret >>
 
 k_ld2(self) == /\ pc[self] = "k_ld2"
                /\ st' = [st EXCEPT ![self] = Rd(self, (WnState(it[self])))]
@@ -940,8 +1351,9 @@ k_ld2(self) == /\ pc[self] = "k_ld2"
                      THEN /\ pc' = [pc EXCEPT ![self] = "k_or"]
                      ELSE /\ pc' = [pc EXCEPT ![self] = "k_fw"]
                /\ UNCHANGED << mem, sb, lock, registry, cursnap, qsr, sleeping, 
-                               woken, faults, alive, cs, pre, i, op, res, 
-                               myctr, g, f, held, old, oldh, popped, it, nx, 
+                               woken, faults, sigs, myctr, insig, hcs, alive, 
+                               cs, pre, T, htmp, hg, hf, hheld, entry, i, op, 
+                               res, tmp, g, f, held, old, oldh, popped, it, nx, 
                                wi, wl, ph, scan, v, ipi, ret, mret >>
 
 k_fw(self) == /\ pc[self] = "k_fw"
@@ -955,9 +1367,10 @@ k_fw(self) == /\ pc[self] = "k_fw"
                    /\ acc' = Ev(self, "fwake", WnState(it[self]), "-", "-", IF w = "none" THEN 0 ELSE 1)
               /\ pc' = [pc EXCEPT ![self] = "k_or"]
               /\ UNCHANGED << mem, sb, lock, registry, cursnap, qsr, sleeping, 
-                              faults, alive, cs, pre, i, op, res, myctr, g, f, 
-                              held, old, oldh, popped, it, nx, st, wi, wl, ph, 
-                              scan, v, ipi, ret, mret >>
+                              faults, sigs, myctr, insig, hcs, alive, cs, pre, 
+                              T, htmp, hg, hf, hheld, entry, i, op, res, tmp, 
+                              g, f, held, old, oldh, popped, it, nx, st, wi, 
+                              wl, ph, scan, v, ipi, ret, mret >>
 
 k_or(self) == /\ pc[self] = "k_or"
               /\ Drained(self)
@@ -966,9 +1379,10 @@ k_or(self) == /\ pc[self] = "k_or"
               /\ it' = [it EXCEPT ![self] = nx[self]]
               /\ pc' = [pc EXCEPT ![self] = "k_top"]
               /\ UNCHANGED << sb, lock, registry, cursnap, qsr, sleeping, 
-                              woken, faults, alive, cs, pre, i, op, res, myctr, 
-                              g, f, held, old, oldh, popped, nx, st, wi, wl, 
-                              ph, scan, v, ipi, ret, mret >>
+                              woken, faults, sigs, myctr, insig, hcs, alive, 
+                              cs, pre, T, htmp, hg, hf, hheld, entry, i, op, 
+                              res, tmp, g, f, held, old, oldh, popped, nx, st, 
+                              wi, wl, ph, scan, v, ipi, ret, mret >>
 
 a_ld1(self) == /\ pc[self] = "a_ld1"
                /\ st' = [st EXCEPT ![self] = Rd(self, (WnState(Wn(self))))]
@@ -981,8 +1395,9 @@ a_ld1(self) == /\ pc[self] = "a_ld1"
                                 THEN /\ pc' = [pc EXCEPT ![self] = "a_ld1"]
                                 ELSE /\ pc' = [pc EXCEPT ![self] = "a_ld2"]
                /\ UNCHANGED << mem, sb, lock, registry, cursnap, qsr, sleeping, 
-                               woken, faults, alive, cs, pre, i, op, res, 
-                               myctr, g, f, held, old, oldh, popped, it, nx, 
+                               woken, faults, sigs, myctr, insig, hcs, alive, 
+                               cs, pre, T, htmp, hg, hf, hheld, entry, i, op, 
+                               res, tmp, g, f, held, old, oldh, popped, it, nx, 
                                wl, ph, scan, v, ipi, ret, mret >>
 
 a_ld2(self) == /\ pc[self] = "a_ld2"
@@ -992,8 +1407,9 @@ a_ld2(self) == /\ pc[self] = "a_ld2"
                      THEN /\ pc' = [pc EXCEPT ![self] = "a_or"]
                      ELSE /\ pc' = [pc EXCEPT ![self] = "a_fw"]
                /\ UNCHANGED << mem, sb, lock, registry, cursnap, qsr, sleeping, 
-                               woken, faults, alive, cs, pre, i, op, res, 
-                               myctr, g, f, held, old, oldh, popped, it, nx, 
+                               woken, faults, sigs, myctr, insig, hcs, alive, 
+                               cs, pre, T, htmp, hg, hf, hheld, entry, i, op, 
+                               res, tmp, g, f, held, old, oldh, popped, it, nx, 
                                wi, wl, ph, scan, v, ipi, ret, mret >>
 
 a_fw(self) == /\ pc[self] = "a_fw"
@@ -1007,9 +1423,10 @@ a_fw(self) == /\ pc[self] = "a_fw"
                          /\ acc' = Ev(self, "fwait", WnState(Wn(self)), WAITING, "-", "SLEEP")
                          /\ pc' = [pc EXCEPT ![self] = "a_wk"]
               /\ UNCHANGED << mem, sb, lock, registry, cursnap, qsr, faults, 
-                              alive, cs, pre, i, op, res, myctr, g, f, held, 
-                              old, oldh, popped, it, nx, st, wi, wl, ph, scan, 
-                              v, ipi, ret, mret >>
+                              sigs, myctr, insig, hcs, alive, cs, pre, T, htmp, 
+                              hg, hf, hheld, entry, i, op, res, tmp, g, f, 
+                              held, old, oldh, popped, it, nx, st, wi, wl, ph, 
+                              scan, v, ipi, ret, mret >>
 
 a_wk(self) == /\ pc[self] = "a_wk"
               /\ \/ /\ woken[self]
@@ -1024,10 +1441,11 @@ a_wk(self) == /\ pc[self] = "a_wk"
               /\ sleeping' = [sleeping EXCEPT ![self] = "none"]
               /\ woken' = [woken EXCEPT ![self] = FALSE]
               /\ pc' = [pc EXCEPT ![self] = "a_ld2"]
-              /\ UNCHANGED << mem, sb, lock, registry, cursnap, qsr, alive, cs, 
-                              pre, i, op, res, myctr, g, f, held, old, oldh, 
-                              popped, it, nx, st, wi, wl, ph, scan, v, ipi, 
-                              ret, mret >>
+              /\ UNCHANGED << mem, sb, lock, registry, cursnap, qsr, sigs, 
+                              myctr, insig, hcs, alive, cs, pre, T, htmp, hg, 
+                              hf, hheld, entry, i, op, res, tmp, g, f, held, 
+                              old, oldh, popped, it, nx, st, wi, wl, ph, scan, 
+                              v, ipi, ret, mret >>
 
 a_or(self) == /\ pc[self] = "a_or"
               /\ Drained(self)
@@ -1036,23 +1454,25 @@ a_or(self) == /\ pc[self] = "a_or"
               /\ wi' = [wi EXCEPT ![self] = 0]
               /\ pc' = [pc EXCEPT ![self] = "a_ld3"]
               /\ UNCHANGED << sb, lock, registry, cursnap, qsr, sleeping, 
-                              woken, faults, alive, cs, pre, i, op, res, myctr, 
-                              g, f, held, old, oldh, popped, it, nx, st, wl, 
-                              ph, scan, v, ipi, ret, mret >>
+                              woken, faults, sigs, myctr, insig, hcs, alive, 
+                              cs, pre, T, htmp, hg, hf, hheld, entry, i, op, 
+                              res, tmp, g, f, held, old, oldh, popped, it, nx, 
+                              st, wl, ph, scan, v, ipi, ret, mret >>
 
 a_ld3(self) == /\ pc[self] = "a_ld3"
                /\ st' = [st EXCEPT ![self] = Rd(self, (WnState(Wn(self))))]
                /\ acc' = Ev(self, "ld", (WnState(Wn(self))), "-", "-", Rd(self, (WnState(Wn(self)))))
                /\ IF HasBit(st'[self], TEARDOWN)
-                     THEN /\ pc' = [pc EXCEPT ![self] = "a_ld5"]
+                     THEN /\ pc' = [pc EXCEPT ![self] = "a_ld4"]
                           /\ wi' = wi
                      ELSE /\ wi' = [wi EXCEPT ![self] = wi[self] + 1]
                           /\ IF wi'[self] < WaitAttempts
                                 THEN /\ pc' = [pc EXCEPT ![self] = "a_ld3"]
                                 ELSE /\ pc' = [pc EXCEPT ![self] = "a_ld4"]
                /\ UNCHANGED << mem, sb, lock, registry, cursnap, qsr, sleeping, 
-                               woken, faults, alive, cs, pre, i, op, res, 
-                               myctr, g, f, held, old, oldh, popped, it, nx, 
+                               woken, faults, sigs, myctr, insig, hcs, alive, 
+                               cs, pre, T, htmp, hg, hf, hheld, entry, i, op, 
+                               res, tmp, g, f, held, old, oldh, popped, it, nx, 
                                wl, ph, scan, v, ipi, ret, mret >>
 
 a_ld4(self) == /\ pc[self] = "a_ld4"
@@ -1062,40 +1482,45 @@ a_ld4(self) == /\ pc[self] = "a_ld4"
                      THEN /\ pc' = [pc EXCEPT ![self] = "a_ld4"]
                      ELSE /\ pc' = [pc EXCEPT ![self] = "a_ld5"]
                /\ UNCHANGED << mem, sb, lock, registry, cursnap, qsr, sleeping, 
-                               woken, faults, alive, cs, pre, i, op, res, 
-                               myctr, g, f, held, old, oldh, popped, it, nx, 
+                               woken, faults, sigs, myctr, insig, hcs, alive, 
+                               cs, pre, T, htmp, hg, hf, hheld, entry, i, op, 
+                               res, tmp, g, f, held, old, oldh, popped, it, nx, 
                                wi, wl, ph, scan, v, ipi, ret, mret >>
 
 a_ld5(self) == /\ pc[self] = "a_ld5"
                /\ st' = [st EXCEPT ![self] = Rd(self, (WnState(Wn(self))))]
                /\ acc' = Ev(self, "ld", (WnState(Wn(self))), "-", "-", Rd(self, (WnState(Wn(self)))))
                /\ Assert(HasBit(st'[self], TEARDOWN), 
-                         "Failure of assertion at line 221, column 11.")
+                         "Failure of assertion at line 286, column 11.")
                /\ pc' = [pc EXCEPT ![self] = "s_ret"]
                /\ UNCHANGED << mem, sb, lock, registry, cursnap, qsr, sleeping, 
-                               woken, faults, alive, cs, pre, i, op, res, 
-                               myctr, g, f, held, old, oldh, popped, it, nx, 
+                               woken, faults, sigs, myctr, insig, hcs, alive, 
+                               cs, pre, T, htmp, hg, hf, hheld, entry, i, op, 
+                               res, tmp, g, f, held, old, oldh, popped, it, nx, 
                                wi, wl, ph, scan, v, ipi, ret, mret >>
 
 s_ret(self) == /\ pc[self] = "s_ret"
                /\ Assert(pre[self] \cap OpenCS = {}, 
-                         "Failure of assertion at line 224, column 11.")
+                         "Failure of assertion at line 289, column 11.")
                /\ mem' = [mem EXCEPT ![WnNext(Wn(self))] = NULL,
                                      ![WnState(Wn(self))] = 0]
                /\ pre' = [pre EXCEPT ![self] = {}]
                /\ pc' = [pc EXCEPT ![self] = "t_ret"]
                /\ UNCHANGED << sb, lock, acc, registry, cursnap, qsr, sleeping, 
-                               woken, faults, alive, cs, i, op, res, myctr, g, 
-                               f, held, old, oldh, popped, it, nx, st, wi, wl, 
-                               ph, scan, v, ipi, ret, mret >>
+                               woken, faults, sigs, myctr, insig, hcs, alive, 
+                               cs, T, htmp, hg, hf, hheld, entry, i, op, res, 
+                               tmp, g, f, held, old, oldh, popped, it, nx, st, 
+                               wi, wl, ph, scan, v, ipi, ret, mret >>
 
 w_top(self) == /\ pc[self] = "w_top"
                /\ wl' = [wl EXCEPT ![self] = 0]
                /\ pc' = [pc EXCEPT ![self] = "w_loop"]
                /\ UNCHANGED << mem, sb, lock, acc, registry, cursnap, qsr, 
-                               sleeping, woken, faults, alive, cs, pre, i, op, 
-                               res, myctr, g, f, held, old, oldh, popped, it, 
-                               nx, st, wi, ph, scan, v, ipi, ret, mret >>
+                               sleeping, woken, faults, sigs, myctr, insig, 
+                               hcs, alive, cs, pre, T, htmp, hg, hf, hheld, 
+                               entry, i, op, res, tmp, g, f, held, old, oldh, 
+                               popped, it, nx, st, wi, ph, scan, v, ipi, ret, 
+                               mret >>
 
 w_loop(self) == /\ pc[self] = "w_loop"
                 /\ IF wl[self] < QSAttempts
@@ -1106,9 +1531,11 @@ w_loop(self) == /\ pc[self] = "w_loop"
                       THEN /\ pc' = [pc EXCEPT ![self] = "w_scan0"]
                       ELSE /\ pc' = [pc EXCEPT ![self] = "w_dec"]
                 /\ UNCHANGED << mem, sb, lock, acc, registry, cursnap, qsr, 
-                                sleeping, woken, faults, alive, cs, pre, i, op, 
-                                res, myctr, g, f, held, old, oldh, popped, it, 
-                                nx, st, wi, ph, scan, v, ipi, ret, mret >>
+                                sleeping, woken, faults, sigs, myctr, insig, 
+                                hcs, alive, cs, pre, T, htmp, hg, hf, hheld, 
+                                entry, i, op, res, tmp, g, f, held, old, oldh, 
+                                popped, it, nx, st, wi, ph, scan, v, ipi, ret, 
+                                mret >>
 
 w_dec(self) == /\ pc[self] = "w_dec"
                /\ Drained(self)
@@ -1116,34 +1543,40 @@ w_dec(self) == /\ pc[self] = "w_dec"
                   /\ mem' = [mem EXCEPT !["gp_futex"] = mem["gp_futex"] - 1]
                /\ pc' = [pc EXCEPT ![self] = "w_mm"]
                /\ UNCHANGED << sb, lock, registry, cursnap, qsr, sleeping, 
-                               woken, faults, alive, cs, pre, i, op, res, 
-                               myctr, g, f, held, old, oldh, popped, it, nx, 
+                               woken, faults, sigs, myctr, insig, hcs, alive, 
+                               cs, pre, T, htmp, hg, hf, hheld, entry, i, op, 
+                               res, tmp, g, f, held, old, oldh, popped, it, nx, 
                                st, wi, wl, ph, scan, v, ipi, ret, mret >>
 
 w_mm(self) == /\ pc[self] = "w_mm"
               /\ mret' = [mret EXCEPT ![self] = "w_scan0"]
               /\ pc' = [pc EXCEPT ![self] = "master"]
               /\ UNCHANGED << mem, sb, lock, acc, registry, cursnap, qsr, 
-                              sleeping, woken, faults, alive, cs, pre, i, op, 
-                              res, myctr, g, f, held, old, oldh, popped, it, 
+                              sleeping, woken, faults, sigs, myctr, insig, hcs, 
+                              alive, cs, pre, T, htmp, hg, hf, hheld, entry, i, 
+                              op, res, tmp, g, f, held, old, oldh, popped, it, 
                               nx, st, wi, wl, ph, scan, v, ipi, ret >>
 
 w_scan0(self) == /\ pc[self] = "w_scan0"
                  /\ scan' = [scan EXCEPT ![self] = IF ph[self] = 1 THEN registry ELSE cursnap]
                  /\ pc' = [pc EXCEPT ![self] = "w_scan"]
                  /\ UNCHANGED << mem, sb, lock, acc, registry, cursnap, qsr, 
-                                 sleeping, woken, faults, alive, cs, pre, i, 
-                                 op, res, myctr, g, f, held, old, oldh, popped, 
-                                 it, nx, st, wi, wl, ph, v, ipi, ret, mret >>
+                                 sleeping, woken, faults, sigs, myctr, insig, 
+                                 hcs, alive, cs, pre, T, htmp, hg, hf, hheld, 
+                                 entry, i, op, res, tmp, g, f, held, old, oldh, 
+                                 popped, it, nx, st, wi, wl, ph, v, ipi, ret, 
+                                 mret >>
 
 w_scan(self) == /\ pc[self] = "w_scan"
                 /\ IF scan[self] = {}
                       THEN /\ pc' = [pc EXCEPT ![self] = "w_chk"]
                       ELSE /\ pc' = [pc EXCEPT ![self] = "w_ldr"]
                 /\ UNCHANGED << mem, sb, lock, acc, registry, cursnap, qsr, 
-                                sleeping, woken, faults, alive, cs, pre, i, op, 
-                                res, myctr, g, f, held, old, oldh, popped, it, 
-                                nx, st, wi, wl, ph, scan, v, ipi, ret, mret >>
+                                sleeping, woken, faults, sigs, myctr, insig, 
+                                hcs, alive, cs, pre, T, htmp, hg, hf, hheld, 
+                                entry, i, op, res, tmp, g, f, held, old, oldh, 
+                                popped, it, nx, st, wi, wl, ph, scan, v, ipi, 
+                                ret, mret >>
 
 w_ldr(self) == /\ pc[self] = "w_ldr"
                /\ \E r \in scan[self]:
@@ -1169,10 +1602,11 @@ w_ldr(self) == /\ pc[self] = "w_ldr"
                                           /\ UNCHANGED << registry, cursnap, 
                                                           qsr >>
                /\ pc' = [pc EXCEPT ![self] = "w_scan"]
-               /\ UNCHANGED << mem, sb, lock, sleeping, woken, faults, alive, 
-                               cs, pre, i, op, res, myctr, g, f, held, old, 
-                               oldh, popped, it, nx, st, wi, wl, ph, ipi, ret, 
-                               mret >>
+               /\ UNCHANGED << mem, sb, lock, sleeping, woken, faults, sigs, 
+                               myctr, insig, hcs, alive, cs, pre, T, htmp, hg, 
+                               hf, hheld, entry, i, op, res, tmp, g, f, held, 
+                               old, oldh, popped, it, nx, st, wi, wl, ph, ipi, 
+                               ret, mret >>
 
 w_chk(self) == /\ pc[self] = "w_chk"
                /\ IF (IF ph[self] = 1 THEN registry ELSE cursnap) # {}
@@ -1181,17 +1615,21 @@ w_chk(self) == /\ pc[self] = "w_chk"
                                 THEN /\ pc' = [pc EXCEPT ![self] = "w_done"]
                                 ELSE /\ pc' = [pc EXCEPT ![self] = "w_mm2"]
                /\ UNCHANGED << mem, sb, lock, acc, registry, cursnap, qsr, 
-                               sleeping, woken, faults, alive, cs, pre, i, op, 
-                               res, myctr, g, f, held, old, oldh, popped, it, 
-                               nx, st, wi, wl, ph, scan, v, ipi, ret, mret >>
+                               sleeping, woken, faults, sigs, myctr, insig, 
+                               hcs, alive, cs, pre, T, htmp, hg, hf, hheld, 
+                               entry, i, op, res, tmp, g, f, held, old, oldh, 
+                               popped, it, nx, st, wi, wl, ph, scan, v, ipi, 
+                               ret, mret >>
 
 w_mm2(self) == /\ pc[self] = "w_mm2"
                /\ mret' = [mret EXCEPT ![self] = "w_st0"]
                /\ pc' = [pc EXCEPT ![self] = "master"]
                /\ UNCHANGED << mem, sb, lock, acc, registry, cursnap, qsr, 
-                               sleeping, woken, faults, alive, cs, pre, i, op, 
-                               res, myctr, g, f, held, old, oldh, popped, it, 
-                               nx, st, wi, wl, ph, scan, v, ipi, ret >>
+                               sleeping, woken, faults, sigs, myctr, insig, 
+                               hcs, alive, cs, pre, T, htmp, hg, hf, hheld, 
+                               entry, i, op, res, tmp, g, f, held, old, oldh, 
+                               popped, it, nx, st, wi, wl, ph, scan, v, ipi, 
+                               ret >>
 
 w_st0(self) == /\ pc[self] = "w_st0"
                /\ IF TSO
@@ -1202,35 +1640,42 @@ w_st0(self) == /\ pc[self] = "w_st0"
                /\ acc' = Ev(self, "st", "gp_futex", 0, "-", "-")
                /\ pc' = [pc EXCEPT ![self] = "w_done"]
                /\ UNCHANGED << lock, registry, cursnap, qsr, sleeping, woken, 
-                               faults, alive, cs, pre, i, op, res, myctr, g, f, 
-                               held, old, oldh, popped, it, nx, st, wi, wl, ph, 
-                               scan, v, ipi, ret, mret >>
+                               faults, sigs, myctr, insig, hcs, alive, cs, pre, 
+                               T, htmp, hg, hf, hheld, entry, i, op, res, tmp, 
+                               g, f, held, old, oldh, popped, it, nx, st, wi, 
+                               wl, ph, scan, v, ipi, ret, mret >>
 
 w_done(self) == /\ pc[self] = "w_done"
                 /\ IF ret[self] = "s_mb2"
                       THEN /\ pc' = [pc EXCEPT ![self] = "s_mb2"]
                       ELSE /\ pc' = [pc EXCEPT ![self] = "s_splice"]
                 /\ UNCHANGED << mem, sb, lock, acc, registry, cursnap, qsr, 
-                                sleeping, woken, faults, alive, cs, pre, i, op, 
-                                res, myctr, g, f, held, old, oldh, popped, it, 
-                                nx, st, wi, wl, ph, scan, v, ipi, ret, mret >>
+                                sleeping, woken, faults, sigs, myctr, insig, 
+                                hcs, alive, cs, pre, T, htmp, hg, hf, hheld, 
+                                entry, i, op, res, tmp, g, f, held, old, oldh, 
+                                popped, it, nx, st, wi, wl, ph, scan, v, ipi, 
+                                ret, mret >>
 
 w_wait(self) == /\ pc[self] = "w_wait"
                 /\ IF wl[self] < QSAttempts
                       THEN /\ pc' = [pc EXCEPT ![self] = "wr_unl"]
                       ELSE /\ pc' = [pc EXCEPT ![self] = "wg_mm"]
                 /\ UNCHANGED << mem, sb, lock, acc, registry, cursnap, qsr, 
-                                sleeping, woken, faults, alive, cs, pre, i, op, 
-                                res, myctr, g, f, held, old, oldh, popped, it, 
-                                nx, st, wi, wl, ph, scan, v, ipi, ret, mret >>
+                                sleeping, woken, faults, sigs, myctr, insig, 
+                                hcs, alive, cs, pre, T, htmp, hg, hf, hheld, 
+                                entry, i, op, res, tmp, g, f, held, old, oldh, 
+                                popped, it, nx, st, wi, wl, ph, scan, v, ipi, 
+                                ret, mret >>
 
 wg_mm(self) == /\ pc[self] = "wg_mm"
                /\ mret' = [mret EXCEPT ![self] = "wg_unl"]
                /\ pc' = [pc EXCEPT ![self] = "master"]
                /\ UNCHANGED << mem, sb, lock, acc, registry, cursnap, qsr, 
-                               sleeping, woken, faults, alive, cs, pre, i, op, 
-                               res, myctr, g, f, held, old, oldh, popped, it, 
-                               nx, st, wi, wl, ph, scan, v, ipi, ret >>
+                               sleeping, woken, faults, sigs, myctr, insig, 
+                               hcs, alive, cs, pre, T, htmp, hg, hf, hheld, 
+                               entry, i, op, res, tmp, g, f, held, old, oldh, 
+                               popped, it, nx, st, wi, wl, ph, scan, v, ipi, 
+                               ret >>
 
 wg_unl(self) == /\ pc[self] = "wg_unl"
                 /\ Drained(self)
@@ -1238,9 +1683,10 @@ wg_unl(self) == /\ pc[self] = "wg_unl"
                 /\ acc' = Ev(self, "unlock", "registry_lock", "-", "-", "-")
                 /\ pc' = [pc EXCEPT ![self] = "wg_ld"]
                 /\ UNCHANGED << mem, sb, registry, cursnap, qsr, sleeping, 
-                                woken, faults, alive, cs, pre, i, op, res, 
-                                myctr, g, f, held, old, oldh, popped, it, nx, 
-                                st, wi, wl, ph, scan, v, ipi, ret, mret >>
+                                woken, faults, sigs, myctr, insig, hcs, alive, 
+                                cs, pre, T, htmp, hg, hf, hheld, entry, i, op, 
+                                res, tmp, g, f, held, old, oldh, popped, it, 
+                                nx, st, wi, wl, ph, scan, v, ipi, ret, mret >>
 
 wg_ld(self) == /\ pc[self] = "wg_ld"
                /\ f' = [f EXCEPT ![self] = Rd(self, "gp_futex")]
@@ -1249,9 +1695,10 @@ wg_ld(self) == /\ pc[self] = "wg_ld"
                      THEN /\ pc' = [pc EXCEPT ![self] = "wg_lock"]
                      ELSE /\ pc' = [pc EXCEPT ![self] = "wg_fw"]
                /\ UNCHANGED << mem, sb, lock, registry, cursnap, qsr, sleeping, 
-                               woken, faults, alive, cs, pre, i, op, res, 
-                               myctr, g, held, old, oldh, popped, it, nx, st, 
-                               wi, wl, ph, scan, v, ipi, ret, mret >>
+                               woken, faults, sigs, myctr, insig, hcs, alive, 
+                               cs, pre, T, htmp, hg, hf, hheld, entry, i, op, 
+                               res, tmp, g, held, old, oldh, popped, it, nx, 
+                               st, wi, wl, ph, scan, v, ipi, ret, mret >>
 
 wg_fw(self) == /\ pc[self] = "wg_fw"
                /\ Drained(self)
@@ -1264,9 +1711,10 @@ wg_fw(self) == /\ pc[self] = "wg_fw"
                           /\ acc' = Ev(self, "fwait", "gp_futex", -1, "-", "SLEEP")
                           /\ pc' = [pc EXCEPT ![self] = "wg_wk"]
                /\ UNCHANGED << mem, sb, lock, registry, cursnap, qsr, faults, 
-                               alive, cs, pre, i, op, res, myctr, g, f, held, 
-                               old, oldh, popped, it, nx, st, wi, wl, ph, scan, 
-                               v, ipi, ret, mret >>
+                               sigs, myctr, insig, hcs, alive, cs, pre, T, 
+                               htmp, hg, hf, hheld, entry, i, op, res, tmp, g, 
+                               f, held, old, oldh, popped, it, nx, st, wi, wl, 
+                               ph, scan, v, ipi, ret, mret >>
 
 wg_wk(self) == /\ pc[self] = "wg_wk"
                /\ \/ /\ woken[self]
@@ -1281,10 +1729,11 @@ wg_wk(self) == /\ pc[self] = "wg_wk"
                /\ sleeping' = [sleeping EXCEPT ![self] = "none"]
                /\ woken' = [woken EXCEPT ![self] = FALSE]
                /\ pc' = [pc EXCEPT ![self] = "wg_ld"]
-               /\ UNCHANGED << mem, sb, lock, registry, cursnap, qsr, alive, 
-                               cs, pre, i, op, res, myctr, g, f, held, old, 
-                               oldh, popped, it, nx, st, wi, wl, ph, scan, v, 
-                               ipi, ret, mret >>
+               /\ UNCHANGED << mem, sb, lock, registry, cursnap, qsr, sigs, 
+                               myctr, insig, hcs, alive, cs, pre, T, htmp, hg, 
+                               hf, hheld, entry, i, op, res, tmp, g, f, held, 
+                               old, oldh, popped, it, nx, st, wi, wl, ph, scan, 
+                               v, ipi, ret, mret >>
 
 wg_lock(self) == /\ pc[self] = "wg_lock"
                  /\ Drained(self) /\ lock["registry_lock"] = "free"
@@ -1292,9 +1741,10 @@ wg_lock(self) == /\ pc[self] = "wg_lock"
                  /\ acc' = Ev(self, "lock", "registry_lock", "-", "-", "-")
                  /\ pc' = [pc EXCEPT ![self] = "w_loop"]
                  /\ UNCHANGED << mem, sb, registry, cursnap, qsr, sleeping, 
-                                 woken, faults, alive, cs, pre, i, op, res, 
-                                 myctr, g, f, held, old, oldh, popped, it, nx, 
-                                 st, wi, wl, ph, scan, v, ipi, ret, mret >>
+                                 woken, faults, sigs, myctr, insig, hcs, alive, 
+                                 cs, pre, T, htmp, hg, hf, hheld, entry, i, op, 
+                                 res, tmp, g, f, held, old, oldh, popped, it, 
+                                 nx, st, wi, wl, ph, scan, v, ipi, ret, mret >>
 
 wr_unl(self) == /\ pc[self] = "wr_unl"
                 /\ Drained(self)
@@ -1302,9 +1752,10 @@ wr_unl(self) == /\ pc[self] = "wr_unl"
                 /\ acc' = Ev(self, "unlock", "registry_lock", "-", "-", "-")
                 /\ pc' = [pc EXCEPT ![self] = "wr_lock"]
                 /\ UNCHANGED << mem, sb, registry, cursnap, qsr, sleeping, 
-                                woken, faults, alive, cs, pre, i, op, res, 
-                                myctr, g, f, held, old, oldh, popped, it, nx, 
-                                st, wi, wl, ph, scan, v, ipi, ret, mret >>
+                                woken, faults, sigs, myctr, insig, hcs, alive, 
+                                cs, pre, T, htmp, hg, hf, hheld, entry, i, op, 
+                                res, tmp, g, f, held, old, oldh, popped, it, 
+                                nx, st, wi, wl, ph, scan, v, ipi, ret, mret >>
 
 wr_lock(self) == /\ pc[self] = "wr_lock"
                  /\ Drained(self) /\ lock["registry_lock"] = "free"
@@ -1312,9 +1763,10 @@ wr_lock(self) == /\ pc[self] = "wr_lock"
                  /\ acc' = Ev(self, "lock", "registry_lock", "-", "-", "-")
                  /\ pc' = [pc EXCEPT ![self] = "w_loop"]
                  /\ UNCHANGED << mem, sb, registry, cursnap, qsr, sleeping, 
-                                 woken, faults, alive, cs, pre, i, op, res, 
-                                 myctr, g, f, held, old, oldh, popped, it, nx, 
-                                 st, wi, wl, ph, scan, v, ipi, ret, mret >>
+                                 woken, faults, sigs, myctr, insig, hcs, alive, 
+                                 cs, pre, T, htmp, hg, hf, hheld, entry, i, op, 
+                                 res, tmp, g, f, held, old, oldh, popped, it, 
+                                 nx, st, wi, wl, ph, scan, v, ipi, ret, mret >>
 
 master(self) == /\ pc[self] = "master"
                 /\ IF Flavor = "memb" /\ SysMb
@@ -1323,18 +1775,21 @@ master(self) == /\ pc[self] = "master"
                       ELSE /\ pc' = [pc EXCEPT ![self] = "m_mb"]
                            /\ ipi' = ipi
                 /\ UNCHANGED << mem, sb, lock, acc, registry, cursnap, qsr, 
-                                sleeping, woken, faults, alive, cs, pre, i, op, 
-                                res, myctr, g, f, held, old, oldh, popped, it, 
-                                nx, st, wi, wl, ph, scan, v, ret, mret >>
+                                sleeping, woken, faults, sigs, myctr, insig, 
+                                hcs, alive, cs, pre, T, htmp, hg, hf, hheld, 
+                                entry, i, op, res, tmp, g, f, held, old, oldh, 
+                                popped, it, nx, st, wi, wl, ph, scan, v, ret, 
+                                mret >>
 
 m_mb(self) == /\ pc[self] = "m_mb"
               /\ Drained(self)
               /\ acc' = Ev(self, "mb", "-", "-", "-", "-")
               /\ pc' = [pc EXCEPT ![self] = "m_ret"]
               /\ UNCHANGED << mem, sb, lock, registry, cursnap, qsr, sleeping, 
-                              woken, faults, alive, cs, pre, i, op, res, myctr, 
-                              g, f, held, old, oldh, popped, it, nx, st, wi, 
-                              wl, ph, scan, v, ipi, ret, mret >>
+                              woken, faults, sigs, myctr, insig, hcs, alive, 
+                              cs, pre, T, htmp, hg, hf, hheld, entry, i, op, 
+                              res, tmp, g, f, held, old, oldh, popped, it, nx, 
+                              st, wi, wl, ph, scan, v, ipi, ret, mret >>
 
 m_ipi(self) == /\ pc[self] = "m_ipi"
                /\ IF ipi[self] # {}
@@ -1345,16 +1800,19 @@ m_ipi(self) == /\ pc[self] = "m_ipi"
                      ELSE /\ pc' = [pc EXCEPT ![self] = "m_sys"]
                           /\ ipi' = ipi
                /\ UNCHANGED << mem, sb, lock, acc, registry, cursnap, qsr, 
-                               sleeping, woken, faults, alive, cs, pre, i, op, 
-                               res, myctr, g, f, held, old, oldh, popped, it, 
-                               nx, st, wi, wl, ph, scan, v, ret, mret >>
+                               sleeping, woken, faults, sigs, myctr, insig, 
+                               hcs, alive, cs, pre, T, htmp, hg, hf, hheld, 
+                               entry, i, op, res, tmp, g, f, held, old, oldh, 
+                               popped, it, nx, st, wi, wl, ph, scan, v, ret, 
+                               mret >>
 
 m_sys(self) == /\ pc[self] = "m_sys"
                /\ acc' = Ev(self, "sysmb", "-", "-", "-", "-")
                /\ pc' = [pc EXCEPT ![self] = "m_ret"]
                /\ UNCHANGED << mem, sb, lock, registry, cursnap, qsr, sleeping, 
-                               woken, faults, alive, cs, pre, i, op, res, 
-                               myctr, g, f, held, old, oldh, popped, it, nx, 
+                               woken, faults, sigs, myctr, insig, hcs, alive, 
+                               cs, pre, T, htmp, hg, hf, hheld, entry, i, op, 
+                               res, tmp, g, f, held, old, oldh, popped, it, nx, 
                                st, wi, wl, ph, scan, v, ipi, ret, mret >>
 
 m_ret(self) == /\ pc[self] = "m_ret"
@@ -1368,25 +1826,31 @@ m_ret(self) == /\ pc[self] = "m_ret"
                                                       THEN /\ pc' = [pc EXCEPT ![self] = "wg_unl"]
                                                       ELSE /\ pc' = [pc EXCEPT ![self] = "s_out"]
                /\ UNCHANGED << mem, sb, lock, acc, registry, cursnap, qsr, 
-                               sleeping, woken, faults, alive, cs, pre, i, op, 
-                               res, myctr, g, f, held, old, oldh, popped, it, 
-                               nx, st, wi, wl, ph, scan, v, ipi, ret, mret >>
+                               sleeping, woken, faults, sigs, myctr, insig, 
+                               hcs, alive, cs, pre, T, htmp, hg, hf, hheld, 
+                               entry, i, op, res, tmp, g, f, held, old, oldh, 
+                               popped, it, nx, st, wi, wl, ph, scan, v, ipi, 
+                               ret, mret >>
 
 t_ret(self) == /\ pc[self] = "t_ret"
                /\ i' = [i EXCEPT ![self] = i[self] + 1]
                /\ pc' = [pc EXCEPT ![self] = "t_top"]
                /\ UNCHANGED << mem, sb, lock, acc, registry, cursnap, qsr, 
-                               sleeping, woken, faults, alive, cs, pre, op, 
-                               res, myctr, g, f, held, old, oldh, popped, it, 
-                               nx, st, wi, wl, ph, scan, v, ipi, ret, mret >>
+                               sleeping, woken, faults, sigs, myctr, insig, 
+                               hcs, alive, cs, pre, T, htmp, hg, hf, hheld, 
+                               entry, op, res, tmp, g, f, held, old, oldh, 
+                               popped, it, nx, st, wi, wl, ph, scan, v, ipi, 
+                               ret, mret >>
 
 t_end(self) == /\ pc[self] = "t_end"
                /\ TRUE
                /\ pc' = [pc EXCEPT ![self] = "Done"]
                /\ UNCHANGED << mem, sb, lock, acc, registry, cursnap, qsr, 
-                               sleeping, woken, faults, alive, cs, pre, i, op, 
-                               res, myctr, g, f, held, old, oldh, popped, it, 
-                               nx, st, wi, wl, ph, scan, v, ipi, ret, mret >>
+                               sleeping, woken, faults, sigs, myctr, insig, 
+                               hcs, alive, cs, pre, T, htmp, hg, hf, hheld, 
+                               entry, i, op, res, tmp, g, f, held, old, oldh, 
+                               popped, it, nx, st, wi, wl, ph, scan, v, ipi, 
+                               ret, mret >>
 
 thr(self) == t_top(self) \/ t_disp(self) \/ g_lock(self) \/ g_add(self)
                 \/ g_unl(self) \/ x_lock(self) \/ x_del(self)
@@ -1418,6 +1882,7 @@ thr(self) == t_top(self) \/ t_disp(self) \/ g_lock(self) \/ g_add(self)
                 \/ t_end(self)
 
 Next == (\E self \in Flushers: flusher(self))
+           \/ (\E self \in SigIds: sig(self))
            \/ (\E self \in Threads: thr(self))
 
 Spec == /\ Init /\ [][Next]_vars
@@ -1427,6 +1892,12 @@ Spec == /\ Init /\ [][Next]_vars
 \* END TRANSLATION
 
 AllDone == \A t \in Threads : pc[t] = "Done"
+\* with signals: a thread does not take steps while its handler runs; handlers and flushers are always allowed
+SigNext == \/ \E self \in Flushers : flusher(self)
+           \/ \E self \in SigIds : sig(self)
+           \/ \E self \in Threads : ~insig[self] /\ thr(self)
+SigSpec == Init /\ [][SigNext]_vars
+SigDeadlockFree == AllDone \/ ENABLED SigNext
 DeadlockFree == AllDone \/ ENABLED Next
 SBBound == \A t \in Threads : Len(sb[t]) <= SBMax
 LockOrder == ~(\E t \in Threads : lock["registry_lock"] = t /\ pc[t] = "s_gplk")
